@@ -78,6 +78,40 @@ Qed.
 Lemma find_ext' {A} (f g : A -> bool) l : (forall x, f x = g x) -> find f l = find g l.
 Proof. intros H. induction l as [|h t IH]; simpl; auto. rewrite H, IH. reflexivity. Qed.
 
+Lemma NoDup_app_l {A} (l l' : list A) : NoDup (l ++ l') -> NoDup l.
+Proof.
+  induction l as [|h t IH]; simpl; intros H; [constructor|].
+  inversion H; subst. constructor; auto. intros Hin. apply H2. apply in_or_app. left. exact Hin.
+Qed.
+
+Lemma Forall2_impl' {A B} (P Q : A -> B -> Prop) l l' :
+  (forall a b, P a b -> Q a b) -> Forall2 P l l' -> Forall2 Q l l'.
+Proof. intros H F. induction F; constructor; auto. Qed.
+
+Lemma Forall2_impl_in {A B} (P Q : A -> B -> Prop) l l' :
+  (forall a b, In b l' -> P a b -> Q a b) -> Forall2 P l l' -> Forall2 Q l l'.
+Proof.
+  intros H F. induction F; constructor.
+  - apply H; auto. left; reflexivity.
+  - apply IHF. intros a b Hb. apply H. right; exact Hb.
+Qed.
+
+Lemma Forall2_impl_in2 {A B} (P Q : A -> B -> Prop) l l' :
+  (forall a b, In a l -> In b l' -> P a b -> Q a b) -> Forall2 P l l' -> Forall2 Q l l'.
+Proof.
+  intros H F. induction F; constructor.
+  - apply H; auto; left; reflexivity.
+  - apply IHF. intros a b Ha Hb. apply H; right; assumption.
+Qed.
+
+Lemma Forall2_In_l {A B} (P : A -> B -> Prop) l l' a :
+  Forall2 P l l' -> In a l -> exists b, In b l' /\ P a b.
+Proof.
+  induction 1; simpl; [tauto|]. intros [<-|Hin].
+  - exists y. auto.
+  - destruct (IHForall2 Hin) as [b [Hb Pb]]. exists b. auto.
+Qed.
+
 Lemma kind_eqb_spec a b : reflect (a = b) (kind_eqb a b).
 Proof. destruct a, b; simpl; constructor; congruence. Qed.
 Lemma vtype_eqb_spec a b : reflect (a = b) (vtype_eqb a b).
@@ -360,13 +394,14 @@ Record inv_x (X : nat -> Prop) (w : world) : Prop := {
   iv_pos : forall m r p, get_mesh w m = Some r -> m_pos r = Some p ->
       exists st, get_st w p = Some st /\ s_owner st = Some m;
   iv_handle : forall h s, get_h w h = Some s -> exists st, get_st w s = Some st;
-  iv_held : forall s st, get_st w s = Some st -> ~ X s -> held w s = true
+  iv_held : forall s st, get_st w s = Some st -> ~ X s -> held w s = true;
+  iv_owner : forall s st m, get_st w s = Some st -> s_owner st = Some m -> exists r, get_mesh w m = Some r
 }.
 
 Definition inv (w : world) : Prop := inv_x (fun _ => False) w.
 
 Lemma inv_x_weaken (X Y : nat -> Prop) w : (forall s, X s -> Y s) -> inv_x X w -> inv_x Y w.
-Proof. intros H [? ? ? ? ? ? ? ? ? ?]; constructor; auto. intros s st Hs HY. eauto. Qed.
+Proof. intros H [? ? ? ? ? ? ? ? ? ? ?]; constructor; auto. intros s st Hs HY. eauto. Qed.
 
 Lemma inv_empty : inv empty_world.
 Proof.
@@ -499,6 +534,9 @@ Proof.
     destruct (get_st w' s); simpl in S1; [eauto|tauto].
   - intros s st' Hs HX. rewrite (sim_held _ _ s S). destruct (sim_st _ _ _ _ S Hs) as [st [Hs0 _]].
     eapply (iv_held _ _ I); eauto.
+  - intros s st' m Hs Ho. destruct (sim_st _ _ _ _ S Hs) as [st [Hs0 F]]. unfold fields_eq in F.
+    assert (Ho0 : s_owner st = Some m) by intuition congruence.
+    destruct (iv_owner _ _ I _ _ _ Hs0 Ho0) as [r Hr]. destruct (sim_mesh' _ _ _ _ S Hr) as [r' [Hr' _]]. eauto.
 Qed.
 
 (* a storage update that keeps every field but the data *)
@@ -624,6 +662,11 @@ Proof.
       * eapply (iv_handle _ _ I); eauto.
     + intros s0 st. rewrite get_st_free, held_free. destruct (Nat.eqb_spec s0 s); [discriminate|].
       intros Hs HX. eapply (iv_held _ _ I); eauto. tauto.
+    + intros s0 st m. rewrite get_st_free. destruct (Nat.eqb_spec s0 s); [discriminate|]. intros Hs Ho.
+      destruct (iv_owner _ _ I _ _ _ Hs Ho) as [r Hr]. unfold free. destruct (get_st w s) as [y|]; eauto.
+      destruct (s_owner y) as [m0|]; unfold tracker_remove, get_mesh, with_heap; simpl; eauto.
+      fold (get_mesh (upd_mesh m0 (fun r0 => with_tracked (remove_val s (m_tracked r0)) r0) w) m).
+      rewrite get_mesh_upd_mesh. destruct (Nat.eqb_spec m m0); subst; eauto. rewrite Hr. simpl. eauto.
 Qed.
 
 Lemma inv_release_id w s : inv w -> inv (release s w).
@@ -844,6 +887,11 @@ Proof.
   - intros x y. rewrite get_st_alloc, held_alloc. fold s. destruct (Nat.eqb_spec x s); subst.
     + intros _ H. exfalso. apply H. auto.
     + intros Hx H. eapply (iv_held _ _ I); eauto.
+  - assert (Lv : forall m0 r0, get_mesh w m0 = Some r0 -> exists r1, get_mesh (fst (alloc st w)) m0 = Some r1).
+    { intros m0 r0 H0. rewrite get_mesh_alloc, Ho. destruct (Nat.eqb_spec m0 m); subst; eauto. rewrite H0. simpl. eauto. }
+    intros x y m0. rewrite get_st_alloc. fold s. destruct (Nat.eqb_spec x s); subst.
+    + intros E O. inversion E; subst. assert (m0 = m) by congruence. subst. eauto.
+    + intros Hx O. destruct (iv_owner _ _ I _ _ _ Hx O) as [r0 Hr0]. eauto.
 Qed.
 
 (* ====================================================================== flag / name updates of one storage *)
@@ -901,6 +949,9 @@ Proof.
   - intros x y H HX. rewrite held_upd_st. apply L in H. destruct H as [[-> ->]|[N H]].
     + eapply (iv_held _ _ I); eauto.
     + eapply (iv_held _ _ I); eauto.
+  - intros x y m H O. rewrite get_mesh_upd_st. apply L in H. destruct H as [[-> ->]|[N H]].
+    + rewrite Ho in O. eapply (iv_owner _ _ I); eauto.
+    + eapply (iv_owner _ _ I); eauto.
 Qed.
 
 Lemma upd_mesh_ext w m f g r : get_mesh w m = Some r -> f r = g r -> upd_mesh m f w = upd_mesh m g w.
@@ -982,6 +1033,8 @@ Proof.
       * exists m, (with_mpers newp r). rewrite GM, Nat.eqb_refl. split; auto. simpl.
         rewrite Hm in Hm'. inversion Hm'; subst. destruct Hr' as [Hr'|Hr']; auto. right. apply HP. left. auto.
       * exists m', r'. rewrite GM. destruct (Nat.eqb_spec m' m); [congruence|]. auto.
+  - intros x y m' H O. destruct (L _ _ H) as [y0 [H0 [_ [_ [_ [_ [E5 _]]]]]]]. rewrite E5 in O.
+    destruct (iv_owner _ _ I _ _ _ H0 O) as [r0 Hr0]. rewrite GM. destruct (Nat.eqb_spec m' m); eauto.
 Qed.
 
 Lemma pers_insert_eq w m s r :
@@ -1291,11 +1344,11 @@ Proof.
   induction l as [|a t IH]; intros w r Hm; simpl.
   - exists r. repeat split; auto; try tauto. apply incl_refl.
   - destruct (unpersist_mesh w m r a Hm) as [r1 [H1 [P1 [Q1 [K1 T1]]]]].
-    destruct (IH _ _ H1) as [r' [H' [P' [Q' [K' T']]]]]. exists r'. repeat split; try congruence.
-    + apply P' in H. rewrite P1 in H. destruct H as [H _]. apply remove_val_In' in H. tauto.
-    + apply P' in H. rewrite P1 in H. destruct H as [H N]. apply remove_val_In' in H. intros [E|E]; [subst; tauto|tauto].
-    + apply P'. rewrite P1. rewrite remove_val_In'. destruct H as [H1' H2']. repeat split; auto; intros ?; apply H2'; [left|right]; auto.
-    + eapply incl_tran; eauto.
+    destruct (IH _ _ H1) as [r' [H' [P' [Q' [K' T']]]]]. exists r'.
+    split; [exact H'|]. split; [|split; [congruence|split; [congruence|eapply incl_tran; eauto]]].
+    intros x. rewrite P', P1, remove_val_In'. simpl. split.
+    + intros [[A B] C]. split; auto. intros [E|E]; [congruence|tauto].
+    + intros [A B]. split; [split; [exact A|]|]; intros E; apply B; [left; congruence|right; exact E].
 Qed.
 
 Lemma is_kind_wle w w' k x : wle w w' -> is_kind w' k x = true -> is_kind w k x = true.
@@ -1328,3 +1381,1284 @@ Proof.
   unfold clear_all_props. generalize all_kinds. intros l. revert w. induction l as [|k t IH]; intros w I; simpl; auto.
   apply IH. apply inv_clear_props. exact I.
 Qed.
+
+(* ====================================================================== worlds with equal lookups *)
+
+Lemma inv_ext X w w' :
+  (forall s, get_st w' s = get_st w s) -> (forall m, get_mesh w' m = get_mesh w m) -> (forall h, get_h w' h = get_h w h) ->
+  inv_x X w -> inv_x X w'.
+Proof.
+  intros H1 H2 H3. apply inv_sim. repeat split; intros.
+  - rewrite H1. destruct (get_st w s); simpl; auto using fields_eq_refl.
+  - rewrite H2. destruct (get_mesh w m); simpl; auto using mrec_eq_refl.
+  - rewrite H3. reflexivity.
+Qed.
+
+(* ====================================================================== the position handle of a mesh object *)
+
+Lemma inv_with_pos X w m r o :
+  inv_x X w -> get_mesh w m = Some r ->
+  (forall p, o = Some p -> exists st, get_st w p = Some st /\ s_owner st = Some m) ->
+  inv_x (fun x => (m_pos r = Some x \/ X x) /\ o <> Some x) (upd_mesh m (with_pos o) w).
+Proof.
+  intros I Hm Ho.
+  assert (GM : forall m', get_mesh (upd_mesh m (with_pos o) w) m' = if m' =? m then Some (with_pos o r) else get_mesh w m').
+  { intros m'. rewrite get_mesh_upd_mesh. destruct (Nat.eqb_spec m' m); subst; auto. rewrite Hm. reflexivity. }
+  assert (L : forall m' r', get_mesh (upd_mesh m (with_pos o) w) m' = Some r' ->
+              exists r0, get_mesh w m' = Some r0 /\ m_tracked r' = m_tracked r0 /\ m_pers r' = m_pers r0 /\
+                         ((m' = m /\ r0 = r /\ m_pos r' = o) \/ (m' <> m /\ r' = r0))).
+  { intros m' r'. rewrite GM. destruct (Nat.eqb_spec m' m); subst.
+    - intros E; inversion E; subst. exists r. simpl. repeat split; auto.
+    - intros E. exists r'. repeat split; auto. }
+  constructor.
+  - intros s st. rewrite get_st_upd_mesh. apply (iv_pers_shared _ _ I).
+  - intros s st. rewrite get_st_upd_mesh. apply (iv_named _ _ I).
+  - intros s1 s2 st1 st2 m0. rewrite !get_st_upd_mesh. apply (iv_unique _ _ I).
+  - intros m' r' s Hm'. destruct (L _ _ Hm') as [r0 [H0 [E1 _]]]. rewrite E1, get_st_upd_mesh. apply (iv_tracked _ _ I); auto.
+  - intros m' r' Hm'. destruct (L _ _ Hm') as [r0 [H0 [E1 _]]]. rewrite E1. eapply (iv_tracked_nodup _ _ I); eauto.
+  - intros m' r' s Hm'. destruct (L _ _ Hm') as [r0 [H0 [_ [E2 _]]]]. rewrite E2, get_st_upd_mesh. apply (iv_pers _ _ I); auto.
+  - intros m' r' Hm'. destruct (L _ _ Hm') as [r0 [H0 [_ [E2 _]]]]. rewrite E2. eapply (iv_pers_nodup _ _ I); eauto.
+  - intros m' r' p Hm' Hp. rewrite get_st_upd_mesh. destruct (L _ _ Hm') as [r0 [H0 [_ [_ [[-> [-> E]]|[N ->]]]]]].
+    + apply Ho. congruence.
+    + eapply (iv_pos _ _ I); eauto.
+  - intros h s. rewrite get_h_upd_mesh, get_st_upd_mesh. apply (iv_handle _ _ I).
+  - intros s st. rewrite get_st_upd_mesh. intros Hs HX.
+    assert (D : o = Some s \/ o <> Some s) by (destruct o as [p|]; [destruct (Nat.eq_dec p s); [left|right]; congruence|right; discriminate]).
+    destruct D as [D|D].
+    + apply held_spec. right. exists m, (with_pos o r). rewrite GM, Nat.eqb_refl. split; auto.
+    + assert (N1 : m_pos r <> Some s) by tauto. assert (N2 : ~ X s) by tauto.
+      pose proof (iv_held _ _ I _ _ Hs N2) as Hh. apply held_spec in Hh. apply held_spec.
+      destruct Hh as [[h Hh]|[m' [r' [Hm' Hr']]]].
+      * left. exists h. rewrite get_h_upd_mesh. assumption.
+      * right. destruct (Nat.eq_dec m' m); subst.
+        -- rewrite Hm in Hm'. inversion Hm'; subst. exists m, (with_pos o r'). rewrite GM, Nat.eqb_refl. split; auto.
+           simpl. destruct Hr'; [congruence|auto].
+        -- exists m', r'. rewrite GM. destruct (Nat.eqb_spec m' m); [congruence|]. auto.
+  - intros s st m'. rewrite get_st_upd_mesh. intros Hs O. destruct (iv_owner _ _ I _ _ _ Hs O) as [r0 H0].
+    rewrite GM. destruct (Nat.eqb_spec m' m); eauto.
+Qed.
+
+Definition release_opt (o : option nat) (w : world) : world := match o with Some p => release p w | None => w end.
+
+(* position_ = <a handle to p>  (assignment of a PropertyPtr: the old storage loses one owner) *)
+Lemma inv_replace_pos X w m r p st :
+  inv_x (fun x => x = p \/ X x) w -> get_mesh w m = Some r -> get_st w p = Some st -> s_owner st = Some m ->
+  inv_x X (release_opt (m_pos r) (upd_mesh m (with_pos (Some p)) w)).
+Proof.
+  intros I Hm Hs Ho.
+  pose proof (inv_with_pos _ w m r (Some p) I Hm) as I1.
+  assert (I2 : inv_x (fun x => (m_pos r = Some x \/ x = p \/ X x) /\ Some p <> Some x) (upd_mesh m (with_pos (Some p)) w)).
+  { apply I1. intros p0 E. inversion E; subst. eauto. }
+  destruct (m_pos r) as [o|] eqn:Po; simpl.
+  - apply inv_release. eapply inv_x_weaken; [|exact I2]. simpl. intros s [[H|[H|H]] N]; auto.
+    + left. congruence.
+    + subst. congruence.
+  - eapply inv_x_weaken; [|exact I2]. simpl. intros s [[H|[H|H]] N]; auto; congruence.
+Qed.
+
+Lemma inv_drop_pos w m r :
+  inv w -> get_mesh w m = Some r -> inv (release_opt (m_pos r) (upd_mesh m (with_pos None) w)).
+Proof.
+  intros I Hm. pose proof (inv_with_pos _ w m r None I Hm) as I1.
+  assert (I2 : inv_x (fun x => (m_pos r = Some x \/ False) /\ None <> Some x) (upd_mesh m (with_pos None) w)).
+  { apply I1. discriminate. }
+  destruct (m_pos r) as [o|] eqn:Po; simpl.
+  - apply inv_release. eapply inv_x_weaken; [|exact I2]. simpl. intros s [[H|[]] _]. left. congruence.
+  - eapply inv_x_weaken; [|exact I2]. simpl. intros s [[H|[]] _]. discriminate.
+Qed.
+
+(* ====================================================================== mesh objects appear and disappear *)
+
+Lemma inv_append_mesh X w : inv_x X w -> inv_x X (with_meshes (meshes w ++ [Some mesh_new]) w).
+Proof.
+  intros I. set (w' := with_meshes (meshes w ++ [Some mesh_new]) w).
+  assert (GS : forall s, get_st w' s = get_st w s) by reflexivity.
+  assert (GH : forall h, get_h w' h = get_h w h) by reflexivity.
+  assert (GM : forall m, get_mesh w' m = if m =? length (meshes w) then Some mesh_new else get_mesh w m).
+  { intros m. unfold w'. rewrite get_mesh_app. reflexivity. }
+  assert (NO : forall s st, get_st w s = Some st -> s_owner st <> Some (length (meshes w))).
+  { intros s st Hs Ho. destruct (iv_owner _ _ I _ _ _ Hs Ho) as [r Hr]. apply get_mesh_lt in Hr. lia. }
+  constructor.
+  - intros s st. rewrite GS. apply (iv_pers_shared _ _ I).
+  - intros s st. rewrite GS. apply (iv_named _ _ I).
+  - intros s1 s2 st1 st2 m. rewrite !GS. apply (iv_unique _ _ I).
+  - intros m r s. rewrite GM, GS. destruct (Nat.eqb_spec m (length (meshes w))); subst.
+    + intros E; inversion E; subst. simpl. split; [tauto|]. intros [st [Hs Ho]]. eapply NO; eauto.
+    + apply (iv_tracked _ _ I).
+  - intros m r. rewrite GM. destruct (Nat.eqb_spec m (length (meshes w))); subst.
+    + intros E; inversion E; subst. constructor.
+    + apply (iv_tracked_nodup _ _ I).
+  - intros m r s. rewrite GM, GS. destruct (Nat.eqb_spec m (length (meshes w))); subst.
+    + intros E; inversion E; subst. simpl. split; [tauto|]. intros [st [Hs [Ho _]]]. eapply NO; eauto.
+    + apply (iv_pers _ _ I).
+  - intros m r. rewrite GM. destruct (Nat.eqb_spec m (length (meshes w))); subst.
+    + intros E; inversion E; subst. constructor.
+    + apply (iv_pers_nodup _ _ I).
+  - intros m r p. rewrite GM, GS. destruct (Nat.eqb_spec m (length (meshes w))); subst.
+    + intros E; inversion E; subst. discriminate.
+    + apply (iv_pos _ _ I).
+  - intros h s. rewrite GH, GS. apply (iv_handle _ _ I).
+  - intros s st. rewrite GS. intros Hs HX. pose proof (iv_held _ _ I _ _ Hs HX) as Hh.
+    apply held_spec in Hh. apply held_spec. destruct Hh as [[h Hh]|[m [r [Hm Hr]]]].
+    + left. exists h. rewrite GH. assumption.
+    + right. exists m, r. rewrite GM. destruct (Nat.eqb_spec m (length (meshes w))); auto.
+      apply get_mesh_lt in Hm. lia.
+  - intros s st m. rewrite GS, GM. intros Hs Ho. destruct (iv_owner _ _ I _ _ _ Hs Ho) as [r Hr].
+    destruct (Nat.eqb_spec m (length (meshes w))); eauto.
+Qed.
+
+Lemma inv_remove_mesh X w m r :
+  inv_x X w -> get_mesh w m = Some r -> m_tracked r = [] -> m_pers r = [] -> m_pos r = None ->
+  inv_x X (with_meshes (upd m None (meshes w)) w).
+Proof.
+  intros I Hm T P Po. set (w' := with_meshes (upd m None (meshes w)) w).
+  assert (GS : forall s, get_st w' s = get_st w s) by reflexivity.
+  assert (GH : forall h, get_h w' h = get_h w h) by reflexivity.
+  assert (GM : forall m', get_mesh w' m' = if m' =? m then None else get_mesh w m') by (intros; apply get_mesh_kill).
+  assert (NO : forall s st, get_st w s = Some st -> s_owner st <> Some m).
+  { intros s st Hs Ho. assert (In s (m_tracked r)) by (apply (iv_tracked _ _ I _ _ s Hm); eauto). rewrite T in H. destruct H. }
+  constructor.
+  - intros s st. rewrite GS. apply (iv_pers_shared _ _ I).
+  - intros s st. rewrite GS. apply (iv_named _ _ I).
+  - intros s1 s2 st1 st2 m0. rewrite !GS. apply (iv_unique _ _ I).
+  - intros m' r' s. rewrite GM, GS. destruct (Nat.eqb_spec m' m); [discriminate|]. apply (iv_tracked _ _ I).
+  - intros m' r'. rewrite GM. destruct (Nat.eqb_spec m' m); [discriminate|]. apply (iv_tracked_nodup _ _ I).
+  - intros m' r' s. rewrite GM, GS. destruct (Nat.eqb_spec m' m); [discriminate|]. apply (iv_pers _ _ I).
+  - intros m' r'. rewrite GM. destruct (Nat.eqb_spec m' m); [discriminate|]. apply (iv_pers_nodup _ _ I).
+  - intros m' r' p. rewrite GM, GS. destruct (Nat.eqb_spec m' m); [discriminate|]. apply (iv_pos _ _ I).
+  - intros h s. rewrite GH, GS. apply (iv_handle _ _ I).
+  - intros s st. rewrite GS. intros Hs HX. pose proof (iv_held _ _ I _ _ Hs HX) as Hh.
+    apply held_spec in Hh. apply held_spec. destruct Hh as [[h Hh]|[m' [r' [Hm' Hr']]]].
+    + left. exists h. rewrite GH. assumption.
+    + right. exists m', r'. rewrite GM. destruct (Nat.eqb_spec m' m); subst; auto.
+      rewrite Hm in Hm'. inversion Hm'; subst. rewrite Po, P in Hr'. destruct Hr' as [Hr'|[]]. discriminate.
+  - intros s st m'. rewrite GS, GM. intros Hs Ho. destruct (iv_owner _ _ I _ _ _ Hs Ho) as [r0 Hr0].
+    destruct (Nat.eqb_spec m' m); subst; eauto. exfalso. eapply NO; eauto.
+Qed.
+
+(* ====================================================================== mesh destruction *)
+
+Definition detach0 (m s : nat) (w : world) : world := pers_erase m s (set_tracker s None w).
+
+Lemma detach_eq m s w : detach m s w = release s (detach0 m s w).
+Proof. reflexivity. Qed.
+
+
+  Lemma detach0_st w m s st (Hs : get_st w s = Some st) x : get_st (detach0 m s w) x = if x =? s then Some (with_owner None st) else get_st w x.
+  Proof.
+    unfold detach0, pers_erase. rewrite get_st_upd_mesh, get_st_set_tracker.
+    destruct (Nat.eqb_spec x s); subst; auto. rewrite Hs. reflexivity.
+  Qed.
+
+  Lemma detach0_mesh w m s r st (Hm : get_mesh w m = Some r) (Hs : get_st w s = Some st) (Ho : s_owner st = Some m) m' :
+    get_mesh (detach0 m s w) m' =
+    if m' =? m then Some (with_mpers (remove_val s (m_pers r)) (with_tracked (remove_val s (m_tracked r)) r))
+    else get_mesh w m'.
+  Proof.
+    unfold detach0, pers_erase, set_tracker. rewrite Hs, Ho. unfold tracker_remove.
+    rewrite get_mesh_upd_mesh, get_mesh_upd_st, get_mesh_upd_mesh.
+    destruct (Nat.eqb_spec m' m); subst; auto. rewrite Hm. reflexivity.
+  Qed.
+
+  Lemma detach0_h w m s h : get_h (detach0 m s w) h = get_h w h.
+  Proof. unfold detach0, pers_erase. rewrite get_h_upd_mesh, get_h_set_tracker. reflexivity. Qed.
+
+  Lemma inv_detach0 w m s r st (Hm : get_mesh w m = Some r) (Hs : get_st w s = Some st) (Ho : s_owner st = Some m) X :
+    inv_x X w -> m_pos r <> Some s -> inv_x (fun x => x = s \/ X x) (detach0 m s w).
+  Proof.
+    intros I Np.
+    assert (L : forall x y, get_st (detach0 m s w) x = Some y ->
+                (x = s /\ y = with_owner None st) \/ (x <> s /\ get_st w x = Some y)).
+    { intros x y. rewrite (detach0_st w m s st Hs). destruct (Nat.eqb_spec x s); subst; intros E; [left; inversion E|right]; auto. }
+    constructor.
+    - intros x y H. apply L in H. destruct H as [[-> ->]|[N H]]; simpl.
+      + apply (iv_pers_shared _ _ I _ _ Hs).
+      + apply (iv_pers_shared _ _ I _ _ H).
+    - intros x y H. apply L in H. destruct H as [[-> ->]|[N H]]; simpl.
+      + apply (iv_named _ _ I _ _ Hs).
+      + apply (iv_named _ _ I _ _ H).
+    - intros s1 s2 st1 st2 m0 G1 G2 O1 O2. apply L in G1. apply L in G2.
+      destruct G1 as [[-> ->]|[N1 G1]]; [simpl in O1; discriminate|].
+      destruct G2 as [[-> ->]|[N2 G2]]; [simpl in O2; discriminate|].
+      eapply (iv_unique _ _ I); eauto.
+    - intros m' r' x. rewrite (detach0_mesh w m s _ st Hm Hs Ho), (detach0_st w m s st Hs). destruct (Nat.eqb_spec m' m); subst.
+      + intros E; inversion E; subst. simpl. rewrite remove_val_In', (iv_tracked _ _ I _ _ x Hm).
+        destruct (Nat.eqb_spec x s); subst.
+        * split; [tauto|]. intros [y [E1 O]]. inversion E1; subst. discriminate.
+        * tauto.
+      + intros Hm'. rewrite (iv_tracked _ _ I _ _ x Hm'). destruct (Nat.eqb_spec x s); subst; [|tauto].
+        split; intros [y [E1 O]].
+        * rewrite Hs in E1. inversion E1; subst. congruence.
+        * inversion E1; subst. discriminate.
+    - intros m' r'. rewrite (detach0_mesh w m s _ st Hm Hs Ho). destruct (Nat.eqb_spec m' m); subst.
+      + intros E; inversion E; subst. simpl. apply remove_val_NoDup. eapply (iv_tracked_nodup _ _ I); eauto.
+      + apply (iv_tracked_nodup _ _ I).
+    - intros m' r' x. rewrite (detach0_mesh w m s _ st Hm Hs Ho), (detach0_st w m s st Hs). destruct (Nat.eqb_spec m' m); subst.
+      + intros E; inversion E; subst. simpl. rewrite remove_val_In', (iv_pers _ _ I _ _ x Hm).
+        destruct (Nat.eqb_spec x s); subst.
+        * split; [tauto|]. intros [y [E1 [O _]]]. inversion E1; subst. discriminate.
+        * tauto.
+      + intros Hm'. rewrite (iv_pers _ _ I _ _ x Hm'). destruct (Nat.eqb_spec x s); subst; [|tauto].
+        split; intros [y [E1 [O P]]].
+        * rewrite Hs in E1. inversion E1; subst. congruence.
+        * inversion E1; subst. discriminate.
+    - intros m' r'. rewrite (detach0_mesh w m s _ st Hm Hs Ho). destruct (Nat.eqb_spec m' m); subst.
+      + intros E; inversion E; subst. simpl. apply remove_val_NoDup. eapply (iv_pers_nodup _ _ I); eauto.
+      + apply (iv_pers_nodup _ _ I).
+    - intros m' r' p. rewrite (detach0_mesh w m s _ st Hm Hs Ho), (detach0_st w m s st Hs). intros Hm' Hp.
+      assert (exists r0, get_mesh w m' = Some r0 /\ m_pos r0 = Some p).
+      { destruct (Nat.eqb_spec m' m); subst; [inversion Hm'; subst; simpl in Hp|]; eauto. }
+      destruct H as [r0 [H0 P0]]. destruct (iv_pos _ _ I _ _ _ H0 P0) as [y [Hy Oy]].
+      destruct (Nat.eqb_spec p s); subst; eauto.
+      exfalso. rewrite Hs in Hy. inversion Hy; subst. assert (m' = m) by congruence. subst.
+      rewrite Hm in H0. inversion H0; subst. tauto.
+    - intros h x. rewrite detach0_h, (detach0_st w m s st Hs). intros Hh. destruct (iv_handle _ _ I _ _ Hh) as [y Hy].
+      destruct (Nat.eqb_spec x s); eauto.
+    - intros x y H HX. assert (N : x <> s) by tauto. assert (HX' : ~ X x) by tauto.
+      apply L in H. destruct H as [[-> _]|[_ H]]; [tauto|].
+      pose proof (iv_held _ _ I _ _ H HX') as Hh. apply held_spec in Hh. apply held_spec.
+      destruct Hh as [[h Hh]|[m' [r' [Hm' Hr']]]].
+      + left. exists h. rewrite detach0_h. assumption.
+      + right. destruct (Nat.eq_dec m' m); subst.
+        * rewrite Hm in Hm'. inversion Hm'; subst. eexists m, _. rewrite (detach0_mesh w m s _ st Hm Hs Ho), Nat.eqb_refl. split; [reflexivity|].
+          simpl. destruct Hr' as [Hr'|Hr']; auto. right. apply remove_val_In'. auto.
+        * exists m', r'. rewrite (detach0_mesh w m s _ st Hm Hs Ho). destruct (Nat.eqb_spec m' m); [congruence|]. auto.
+    - intros x y m' H O. apply L in H. destruct H as [[-> ->]|[N H]]; [simpl in O; discriminate|].
+      destruct (iv_owner _ _ I _ _ _ H O) as [r0 H0]. rewrite (detach0_mesh w m s _ st Hm Hs Ho). destruct (Nat.eqb_spec m' m); eauto.
+  Qed.
+
+
+Lemma inv_detach w m r s :
+  inv w -> get_mesh w m = Some r -> In s (m_tracked r) -> m_pos r <> Some s -> inv (detach m s w).
+Proof.
+  intros I Hm Hin Np. destruct (proj1 (iv_tracked _ _ I _ _ s Hm) Hin) as [st [Hs Ho]].
+  rewrite detach_eq. apply inv_release. eapply inv_detach0; eauto.
+Qed.
+
+(* the mesh record after one detach: s is gone from both sets, everything else as before *)
+Lemma detach_mesh w m r s st :
+  get_mesh w m = Some r -> get_st w s = Some st -> s_owner st = Some m ->
+  exists r', get_mesh (detach m s w) m = Some r' /\ m_tracked r' = remove_val s (m_tracked r) /\
+             m_pers r' = remove_val s (m_pers r) /\ m_pos r' = m_pos r.
+Proof.
+  intros Hm Hs Ho. rewrite detach_eq.
+  assert (H0 : get_mesh (detach0 m s w) m = Some (with_mpers (remove_val s (m_pers r)) (with_tracked (remove_val s (m_tracked r)) r))).
+  { rewrite (detach0_mesh w m s _ st Hm Hs Ho), Nat.eqb_refl. reflexivity. }
+  destruct (get_mesh_release_live _ s _ _ H0) as [r' Hr']. exists r'. split; auto.
+  destruct (get_mesh_release_inv _ _ _ _ Hr') as [r0 [E0 [E1 [E2 [_ E4]]]]]. rewrite H0 in E0. inversion E0; subst. simpl in *.
+  repeat split; auto. destruct E4 as [E4|[[_ [y [Hy Oy]]] _]]; auto.
+  rewrite (detach0_st w m s st Hs), Nat.eqb_refl in Hy. inversion Hy; subst. discriminate.
+Qed.
+
+Lemma inv_fold_detach m l : forall w r,
+  inv w -> get_mesh w m = Some r -> m_tracked r = l -> m_pos r = None ->
+  inv (fold_left (fun w s => detach m s w) l w) /\
+  exists r', get_mesh (fold_left (fun w s => detach m s w) l w) m = Some r' /\
+             m_tracked r' = [] /\ m_pers r' = [] /\ m_pos r' = None.
+Proof.
+  induction l as [|a t IH]; intros w r I Hm Ht Hp; simpl.
+  - split; auto. exists r. repeat split; auto.
+    destruct (m_pers r) as [|x p] eqn:P; auto. exfalso.
+    assert (In x (m_tracked r)) by (eapply pers_tracked; eauto; rewrite P; left; reflexivity). rewrite Ht in H. destruct H.
+  - assert (Hin : In a (m_tracked r)) by (rewrite Ht; left; reflexivity).
+    destruct (proj1 (iv_tracked _ _ I _ _ a Hm) Hin) as [st [Hs Ho]].
+    assert (I1 : inv (detach m a w)) by (eapply inv_detach; eauto; congruence).
+    destruct (detach_mesh w m r a st Hm Hs Ho) as [r1 [H1 [T1 [P1 Q1]]]].
+    apply (IH _ r1); auto; try congruence.
+    rewrite T1, Ht. apply remove_val_head.
+    pose proof (iv_tracked_nodup _ _ I _ _ Hm) as ND. rewrite Ht in ND. inversion ND; auto.
+Qed.
+
+Lemma fold_release_nil w : fold_left (fun w s => release s w) [] w = w.
+Proof. reflexivity. Qed.
+
+Lemma inv_destroy_mesh w m : inv w -> inv (fst (destroy_mesh m w)).
+Proof.
+  intros I. unfold destroy_mesh. destruct (get_mesh w m) as [r|] eqn:Hm; auto.
+  pose proof (inv_drop_pos w m r I Hm) as I2. unfold release_opt in I2.
+  set (w2 := match m_pos r with Some p => release p (upd_mesh m (with_pos None) w) | None => upd_mesh m (with_pos None) w end) in *.
+  destruct (get_mesh w2 m) as [r2|] eqn:H2; auto.
+  assert (P2 : m_pos r2 = None).
+  { assert (H1 : get_mesh (upd_mesh m (with_pos None) w) m = Some (with_pos None r)) by (rewrite get_mesh_upd_mesh, Nat.eqb_refl, Hm; reflexivity).
+    unfold w2 in H2. destruct (m_pos r).
+    - destruct (get_mesh_release_inv _ _ _ _ H2) as [r0 [E0 [_ [E2 _]]]]. rewrite H1 in E0. inversion E0; subst. exact E2.
+    - rewrite H1 in H2. inversion H2; subst. reflexivity. }
+  destruct (inv_fold_detach m (m_tracked r2) w2 r2 I2 H2 eq_refl P2) as [I3 [r3 [H3 [T3 [Pe3 Po3]]]]].
+  set (w3 := fold_left (fun w s => detach m s w) (m_tracked r2) w2) in *.
+  cbn [fst]. rewrite H3, Pe3. cbn [fold_left].
+  assert (E : upd_mesh m (with_mpers []) w3 = w3).
+  { unfold upd_mesh. rewrite H3. destruct w3 as [hp ms hs]. unfold with_meshes; simpl. f_equal.
+    unfold get_mesh in H3; simpl in H3. clear - H3 Pe3. revert m H3. induction ms as [|x t IH]; intros [|m] H; simpl in *; try discriminate.
+    - destruct x as [y|]; [|discriminate]. inversion H; subst. f_equal. f_equal. rewrite <- Pe3. apply with_mpers_same.
+    - f_equal. apply IH. exact H. }
+  rewrite E. eapply inv_remove_mesh; eauto.
+Qed.
+
+(* ====================================================================== clone_persistent_properties_from *)
+
+Definition tr_add (s : nat) (r : meshrec) : meshrec := with_tracked (m_tracked r ++ [s]) r.
+Definition tr_remove (s : nat) (r : meshrec) : meshrec := with_tracked (remove_val s (m_tracked r)) r.
+
+Lemma get_mesh_set_tracker w s t st m0 :
+  get_st w s = Some st ->
+  get_mesh (set_tracker s t w) m0 =
+  option_map (fun r => (if opt_is m0 t then tr_add s else fun r => r)
+                         ((if opt_is m0 (s_owner st) then tr_remove s else fun r => r) r))
+             (get_mesh w m0).
+Proof.
+  intros Hs. unfold set_tracker. rewrite Hs.
+  destruct t as [mt|], (s_owner st) as [mo|]; unfold tracker_add, tracker_remove, opt_is;
+    rewrite ?get_mesh_upd_mesh, ?get_mesh_upd_st, ?get_mesh_upd_mesh.
+  - rewrite (Nat.eqb_sym mt m0), (Nat.eqb_sym mo m0).
+    destruct (m0 =? mt), (m0 =? mo), (get_mesh w m0); reflexivity.
+  - rewrite (Nat.eqb_sym mt m0). destruct (m0 =? mt), (get_mesh w m0); reflexivity.
+  - rewrite (Nat.eqb_sym mo m0). destruct (m0 =? mo), (get_mesh w m0); reflexivity.
+  - destruct (get_mesh w m0); reflexivity.
+Qed.
+
+Lemma with_tracked_same r : with_tracked (m_tracked r) r = r.
+Proof. destruct r; reflexivity. Qed.
+
+Lemma tr_remove_add s r : ~ In s (m_tracked r) -> tr_remove s (tr_add s r) = r.
+Proof.
+  intros H. unfold tr_remove, tr_add. destruct r; simpl in *. unfold with_tracked; simpl. f_equal.
+  apply remove_val_app_last. assumption.
+Qed.
+
+Definition cloned (m' s' : nat) (r' : meshrec) : meshrec :=
+  with_mpers (m_pers r' ++ [s']) (with_tracked (m_tracked r' ++ [s']) r').
+
+Lemma clone_one_lookups X w m' r' s st :
+  inv_x X w -> get_st w s = Some st -> get_mesh w m' = Some r' ->
+  let s' := length (heap w) in
+  (forall x, get_st (clone_one m' w s) x = if x =? s' then Some (with_owner (Some m') st) else get_st w x) /\
+  (forall m0, get_mesh (clone_one m' w s) m0 = if m0 =? m' then Some (cloned m' s' r') else get_mesh w m0) /\
+  (forall h, get_h (clone_one m' w s) h = get_h w h).
+Proof.
+  intros I Hs Hm' s'. unfold clone_one. rewrite Hs.
+  change (alloc st w) with (fst (alloc st w), s'). cbv iota beta.
+  set (w1 := fst (alloc st w)).
+  assert (S1 : get_st w1 s' = Some st) by (unfold w1; rewrite get_st_alloc; fold s'; rewrite Nat.eqb_refl; reflexivity).
+  set (w2 := set_tracker s' None w1).
+  assert (S2 : get_st w2 s' = Some (with_owner None st)) by (unfold w2; rewrite get_st_set_tracker, Nat.eqb_refl, S1; reflexivity).
+  set (w3 := set_tracker s' (Some m') w2).
+  assert (Fr : forall m0 r0, get_mesh w m0 = Some r0 -> ~ In s' (m_tracked r0) /\ ~ In s' (m_pers r0)).
+  { intros m0 r0 H0. split; intros Hin.
+    - apply (tracked_lt _ _ _ _ _ I H0) in Hin. unfold s' in Hin. lia.
+    - apply (pers_lt _ _ _ _ _ I H0) in Hin. unfold s' in Hin. lia. }
+  assert (M2 : forall m0, get_mesh w2 m0 = get_mesh w m0).
+  { intros m0. unfold w2. rewrite (get_mesh_set_tracker w1 s' None st m0 S1). cbn [opt_is]. unfold w1. rewrite get_mesh_alloc.
+    destruct (s_owner st) as [mo|]; cbn [opt_is].
+    - destruct (Nat.eqb_spec m0 mo); subst.
+      + rewrite Nat.eqb_refl. destruct (get_mesh w mo) as [r0|] eqn:H0; simpl; auto. f_equal.
+        apply (tr_remove_add s' r0). apply (Fr _ _ H0).
+      + replace (mo =? m0) with false by (symmetry; apply Nat.eqb_neq; congruence). destruct (get_mesh w m0); reflexivity.
+    - destruct (get_mesh w m0); reflexivity. }
+  assert (M3 : forall m0, get_mesh w3 m0 = if m0 =? m' then Some (tr_add s' r') else get_mesh w m0).
+  { intros m0. unfold w3. rewrite (get_mesh_set_tracker w2 s' (Some m') _ m0 S2). cbn [opt_is s_owner with_owner]. rewrite M2.
+    destruct (Nat.eqb_spec m0 m'); subst.
+    - rewrite Nat.eqb_refl, Hm'. reflexivity.
+    - replace (m' =? m0) with false by (symmetry; apply Nat.eqb_neq; congruence). destruct (get_mesh w m0); reflexivity. }
+  repeat split.
+  - intros x. unfold pers_insert. rewrite get_st_upd_mesh. unfold w3. rewrite get_st_set_tracker.
+    unfold w2. rewrite get_st_set_tracker. unfold w1. rewrite get_st_alloc. fold s'.
+    destruct (Nat.eqb_spec x s'); subst; simpl; auto.
+  - intros m0. unfold pers_insert. rewrite get_mesh_upd_mesh, M3. destruct (Nat.eqb_spec m0 m'); subst; auto.
+    simpl. destruct (Fr _ _ Hm') as [_ F2].
+    replace (memb s' (m_pers r')) with false by (symmetry; destruct (memb s' (m_pers r')) eqn:E; auto; apply memb_In' in E; tauto).
+    reflexivity.
+  - intros h. unfold pers_insert. rewrite get_h_upd_mesh. unfold w3, w2, w1. rewrite !get_h_set_tracker, get_h_alloc. reflexivity.
+Qed.
+
+Lemma inv_clone_one X w m' r' s st :
+  inv_x X w -> get_st w s = Some st -> s_pers st = true -> get_mesh w m' = Some r' ->
+  (forall s2 st2, get_st w s2 = Some st2 -> s_owner st2 = Some m' -> s_shared st2 = true -> ~ key_eq st st2) ->
+  inv_x X (clone_one m' w s).
+Proof.
+  intros I Hs Hp Hm' Hu.
+  pose proof (iv_pers_shared _ _ I _ _ Hs Hp) as Hsh. pose proof (iv_named _ _ I _ _ Hs Hsh) as Hn.
+  set (s' := length (heap w)).
+  set (st0 := with_pers false (with_owner (Some m') st)).
+  set (wA := fst (alloc st0 w)).
+  assert (IA : inv_x (fun x => x = s' \/ X x) wA).
+  { unfold wA, s'. eapply inv_alloc; eauto; simpl; auto; try (intros _; split; auto). }
+  assert (SA : get_st wA s' = Some st0) by (unfold wA; rewrite get_st_alloc; fold s'; rewrite Nat.eqb_refl; reflexivity).
+  assert (MA : get_mesh wA m' = Some (tr_add s' r')).
+  { unfold wA. rewrite get_mesh_alloc. simpl. rewrite Nat.eqb_refl, Hm'. reflexivity. }
+  assert (Fr : ~ In s' (m_pers r')).
+  { intros Hin. apply (pers_lt _ _ _ _ _ I Hm') in Hin. unfold s' in Hin. lia. }
+  set (wB := upd_st s' (with_pers true) (upd_mesh m' (with_mpers (m_pers r' ++ [s'])) wA)).
+  assert (IB : inv_x X wB).
+  { eapply inv_x_held with (s := s').
+    - eapply inv_x_weaken with (X := fun x => x = s' \/ (x = s' \/ X x));
+        [|unfold wB; eapply inv_set_pers with (b := true) (r := tr_add s' r'); eauto].
+      + simpl. intros x [H|[H|H]]; auto.
+      + simpl. apply NoDup_app_last; auto. eapply (iv_pers_nodup _ _ I); eauto.
+      + intros x. simpl. rewrite in_app_iff. simpl. split.
+        * intros [H|[H|[]]]; [left; split; auto; intros ->; tauto|right; auto].
+        * intros [[_ H]|[H _]]; auto.
+    - apply held_spec. right. exists m', (with_mpers (m_pers r' ++ [s']) (tr_add s' r')). split.
+      + unfold wB. rewrite get_mesh_upd_st, get_mesh_upd_mesh, Nat.eqb_refl, MA. reflexivity.
+      + right. simpl. rewrite in_app_iff. simpl. auto. }
+  destruct (clone_one_lookups X w m' r' s st I Hs Hm') as [L1 [L2 L3]]. fold s' in L1, L2.
+  eapply inv_ext; [| | |exact IB].
+  - intros x. rewrite L1. unfold wB. rewrite get_st_upd_st, get_st_upd_mesh. unfold wA. rewrite get_st_alloc. fold s'.
+    destruct (Nat.eqb_spec x s'); subst; auto. simpl. f_equal. unfold st0. destruct st; simpl in *. subst. reflexivity.
+  - intros m0. rewrite L2. unfold wB. rewrite get_mesh_upd_st, get_mesh_upd_mesh. destruct (Nat.eqb_spec m0 m'); subst.
+    + rewrite MA. reflexivity.
+    + unfold wA. rewrite get_mesh_alloc. simpl. destruct (Nat.eqb_spec m0 m'); [congruence|reflexivity].
+  - intros h. rewrite L3. unfold wB. rewrite get_h_upd_st, get_h_upd_mesh. unfold wA. rewrite get_h_alloc. reflexivity.
+Qed.
+
+Lemma key_eq_sym a b : key_eq a b -> key_eq b a.
+Proof. unfold key_eq; intuition. Qed.
+Lemma key_eq_trans a b c : key_eq a b -> key_eq b c -> key_eq a c.
+Proof. unfold key_eq; intuition congruence. Qed.
+Lemma key_eq_with_owner o a : key_eq a (with_owner o a).
+Proof. repeat split. Qed.
+
+Lemma inv_clone_fold_gen m' src : forall l done w,
+  inv w -> NoDup (done ++ l) ->
+  (forall x, In x (done ++ l) -> exists st, get_st w x = Some st /\ s_owner st = Some src /\ s_pers st = true) ->
+  src <> m' -> (exists r', get_mesh w m' = Some r') ->
+  (forall s2 st2, get_st w s2 = Some st2 -> s_owner st2 = Some m' -> s_shared st2 = true ->
+                  exists x st, In x done /\ get_st w x = Some st /\ key_eq st st2) ->
+  inv (fold_left (clone_one m') l w).
+Proof.
+  induction l as [|a t IH]; intros done w I ND Hl Hne [r' Hm'] Hd; simpl; auto.
+  destruct (Hl a) as [sta [Ha [Oa Pa]]]; [rewrite in_app_iff; right; left; reflexivity|].
+  assert (I1 : inv (clone_one m' w a)).
+  { eapply inv_clone_one; eauto. intros s2 st2 H2 O2 S2 K.
+    destruct (Hd _ _ H2 O2 S2) as [x [stx [Hx [Gx Kx]]]].
+    destruct (Hl x) as [stx' [Gx' [Ox Px]]]; [rewrite in_app_iff; left; exact Hx|]. rewrite Gx in Gx'. inversion Gx'; subst.
+    assert (a = x).
+    { eapply (iv_unique _ _ I a x sta stx' src); eauto.
+      - eapply (iv_pers_shared _ _ I); eauto.
+      - eapply (iv_pers_shared _ _ I); eauto.
+      - eapply key_eq_trans; eauto. apply key_eq_sym. exact Kx. }
+    subst. apply NoDup_remove_2 in ND. apply ND. rewrite in_app_iff. left. exact Hx. }
+  destruct (clone_one_lookups _ w m' r' a sta I Ha Hm') as [L1 [L2 L3]].
+  assert (Old : forall x st, get_st w x = Some st -> get_st (clone_one m' w a) x = Some st).
+  { intros x st H. rewrite L1. destruct (Nat.eqb_spec x (length (heap w))); auto. apply get_st_lt in H. lia. }
+  apply (IH (done ++ [a])); auto.
+  - rewrite <- app_assoc. simpl. exact ND.
+  - intros x Hx. rewrite <- app_assoc in Hx. simpl in Hx. destruct (Hl x Hx) as [st [G [O P]]]. exists st. auto.
+  - rewrite L2, Nat.eqb_refl. eauto.
+  - intros s2 st2. rewrite L1. destruct (Nat.eqb_spec s2 (length (heap w))); subst.
+    + intros E _ _. inversion E; subst. exists a, sta. rewrite in_app_iff. simpl. repeat split; auto.
+    + intros H2 O2 S2. destruct (Hd _ _ H2 O2 S2) as [x [stx [Hx [Gx Kx]]]]. exists x, stx. rewrite in_app_iff. auto.
+Qed.
+
+Lemma inv_clone_persistent_from w m' src :
+  inv w -> src <> m' -> (exists r', get_mesh w m' = Some r') ->
+  (forall s2 st2, get_st w s2 = Some st2 -> s_owner st2 = Some m' -> s_shared st2 = false) ->
+  inv (clone_persistent_from m' src w).
+Proof.
+  intros I Hne Hm' Hns. unfold clone_persistent_from. destruct (get_mesh w src) as [rs|] eqn:Hs; auto.
+  apply (inv_clone_fold_gen m' src (m_pers rs) [] w); auto.
+  - simpl. eapply (iv_pers_nodup _ _ I); eauto.
+  - simpl. intros x Hx. apply (iv_pers _ _ I _ _ x Hs). exact Hx.
+  - intros s2 st2 H2 O2 S2. rewrite (Hns _ _ H2 O2) in S2. discriminate.
+Qed.
+
+(* ====================================================================== make_prop, new / copy / assign *)
+
+Lemma make_prop_spec X w m w' p :
+  inv_x X w -> make_prop m w = Some (w', p) ->
+  inv_x (fun x => x = p \/ X x) w' /\
+  (exists st, get_st w' p = Some st /\ s_owner st = Some m) /\
+  (forall r, get_mesh w m = Some r -> exists r', get_mesh w' m = Some r' /\ m_pos r' = m_pos r /\ m_pers r' = m_pers r /\ m_k r' = m_k r) /\
+  (forall m0, m0 <> m -> get_mesh w' m0 = get_mesh w m0) /\
+  (forall h, get_h w' h = get_h w h) /\
+  (forall x st, get_st w x = Some st -> get_st w' x = Some st) /\
+  (forall x st, get_st w' x = Some st -> get_st w x = Some st \/ (x = p /\ get_st w x = None)) /\
+  (forall st, get_st w p = Some st -> find_prop w m KV TVec POSNAME = Some p).
+Proof.
+  intros I. unfold make_prop. destruct (get_mesh w m) as [r|] eqn:Hm; [|discriminate].
+  destruct (find_prop w m KV TVec POSNAME) as [s|] eqn:F.
+  - intros E; inversion E; subst. split; [eapply inv_x_weaken; [|exact I]; simpl; tauto|].
+    destruct (find_prop_owner _ _ _ _ _ _ _ I F) as [st [Hs [Ho _]]].
+    split; [eauto|]. split; [intros r0 E0; inversion E0; subst; eauto|]. repeat split; auto.
+  - intros E.
+    assert (Ew : w' = fst (create w m r KV TVec POSNAME 0%Z true)) by (inversion E; reflexivity).
+    assert (Ep : p = length (heap w)) by (inversion E; reflexivity). subst w' p. clear E.
+    split; [|split; [|split; [|split; [|split; [|split; [|split]]]]]].
+    + apply (inv_create X w m r KV TVec POSNAME 0%Z true I Hm). intros _. split; [discriminate|exact F].
+    + rewrite create_eq, get_st_alloc, Nat.eqb_refl. eexists; split; [reflexivity|reflexivity].
+    + intros r0 E0. inversion E0; subst. rewrite create_eq, get_mesh_alloc. simpl. rewrite Nat.eqb_refl, Hm. simpl. eauto.
+    + intros m0 N. rewrite create_eq, get_mesh_alloc. simpl. destruct (Nat.eqb_spec m0 m); [congruence|reflexivity].
+    + intros h. rewrite create_eq, get_h_alloc. reflexivity.
+    + intros x st Hx. rewrite create_eq, get_st_alloc. destruct (Nat.eqb_spec x (length (heap w))); auto.
+      apply get_st_lt in Hx. lia.
+    + intros x st. rewrite create_eq, get_st_alloc. destruct (Nat.eqb_spec x (length (heap w))); auto.
+      intros _. right. split; auto. apply get_st_ge. lia.
+    + intros st Hs. apply get_st_lt in Hs. lia.
+Qed.
+
+Lemma sim_copy_positions sp dp w w' : copy_positions sp dp w = Some w' -> sim w w'.
+Proof.
+  unfold copy_positions. destruct (get_st w sp) as [a|]; [|discriminate]. destruct (get_st w dp) as [b|]; [|discriminate].
+  destruct (length (s_data a) <=? length (s_data b)); [|discriminate]. intros E; inversion E; subst.
+  apply sim_upd_st. intros st. apply fields_eq_with_data.
+Qed.
+
+Lemma mrec_eq_with_k x r : mrec_eq r (with_k x r).
+Proof. repeat split. Qed.
+
+Lemma inv_new_mesh w : inv w -> inv (fst (new_mesh w)).
+Proof.
+  intros I. unfold new_mesh. set (m := length (meshes w)).
+  set (w1 := with_meshes (meshes w ++ [Some mesh_new]) w).
+  assert (I1 : inv w1) by (apply inv_append_mesh; exact I).
+  assert (M1 : get_mesh w1 m = Some mesh_new) by (unfold w1; rewrite get_mesh_app; fold m; rewrite Nat.eqb_refl; reflexivity).
+  destruct (make_prop m w1) as [[w2 p]|] eqn:MP; [|exact I].
+  destruct (make_prop_spec _ _ _ _ _ I1 MP) as [I2 [[st [Hs Ho]] [Hm2 _]]].
+  destruct (Hm2 _ M1) as [r2 [H2 [P2 _]]]. simpl in P2. cbn [fst].
+  pose proof (inv_replace_pos _ w2 m r2 p st I2 H2 Hs Ho) as I3. rewrite P2 in I3. exact I3.
+Qed.
+
+(* what the clone loop did, in terms of the world before it *)
+Record clone_spec (m' : nat) (l : list nat) (w res : world) (r' : meshrec) : Prop := {
+  cs_old : forall x st, get_st w x = Some st -> get_st res x = Some st;
+  cs_meshes : forall m0, m0 <> m' -> get_mesh res m0 = get_mesh w m0;
+  cs_handles : forall h, get_h res h = get_h w h;
+  cs_new : exists ids r'',
+      get_mesh res m' = Some r'' /\ m_pos r'' = m_pos r' /\ m_k r'' = m_k r' /\
+      m_pers r'' = m_pers r' ++ ids /\ m_tracked r'' = m_tracked r' ++ ids /\
+      Forall2 (fun id a => get_st w id = None /\
+                           exists sta, get_st w a = Some sta /\ get_st res id = Some (with_owner (Some m') sta)) ids l /\
+      (forall x st, get_st res x = Some st -> get_st w x = None -> In x ids)
+}.
+
+Lemma clone_fold_spec m' src : forall l done w r',
+  inv w -> NoDup (done ++ l) ->
+  (forall x, In x (done ++ l) -> exists st, get_st w x = Some st /\ s_owner st = Some src /\ s_pers st = true) ->
+  src <> m' -> get_mesh w m' = Some r' ->
+  (forall s2 st2, get_st w s2 = Some st2 -> s_owner st2 = Some m' -> s_shared st2 = true ->
+                  exists x st, In x done /\ get_st w x = Some st /\ key_eq st st2) ->
+  clone_spec m' l w (fold_left (clone_one m') l w) r'.
+Proof.
+  induction l as [|a t IH]; intros done w r' I ND Hl Hne Hm' Hd; simpl.
+  - constructor; auto. exists [], r'. rewrite !app_nil_r. repeat split; auto. intros x st H1 H2. congruence.
+  - destruct (Hl a) as [sta [Ha [Oa Pa]]]; [rewrite in_app_iff; right; left; reflexivity|].
+    assert (I1 : inv (clone_one m' w a)).
+    { apply (inv_clone_fold_gen m' src [a] done w); auto.
+      - assert (H : NoDup ((done ++ [a]) ++ t)) by (rewrite <- app_assoc; exact ND).
+        apply NoDup_app_l in H. exact H.
+      - intros x Hx. apply Hl. rewrite in_app_iff in *. simpl in *. tauto.
+      - eauto. }
+    destruct (clone_one_lookups _ w m' r' a sta I Ha Hm') as [L1 [L2 L3]].
+    set (n0 := length (heap w)) in *. set (w1 := clone_one m' w a) in *.
+    assert (Old : forall x st, get_st w x = Some st -> get_st w1 x = Some st).
+    { intros x st H. rewrite L1. destruct (Nat.eqb_spec x n0); auto. apply get_st_lt in H. unfold n0 in *. lia. }
+    assert (M1 : get_mesh w1 m' = Some (cloned m' n0 r')) by (rewrite L2, Nat.eqb_refl; reflexivity).
+    assert (S : clone_spec m' t w1 (fold_left (clone_one m') t w1) (cloned m' n0 r')).
+    { apply (IH (done ++ [a])); auto.
+      - rewrite <- app_assoc. simpl. exact ND.
+      - intros x Hx. rewrite <- app_assoc in Hx. simpl in Hx. destruct (Hl x Hx) as [st [G [O P]]]. exists st. auto.
+      - intros s2 st2. rewrite L1. destruct (Nat.eqb_spec s2 n0); subst.
+        + intros E _ _. inversion E; subst. exists a, sta. rewrite in_app_iff. simpl. repeat split; auto.
+        + intros H2 O2 S2. destruct (Hd _ _ H2 O2 S2) as [x [stx [Hx [Gx Kx]]]]. exists x, stx. rewrite in_app_iff. auto. }
+    destruct S as [S1 S2 S3 [ids [r'' [R1 [R2 [R3 [R4 [R5 [R6 R7]]]]]]]]].
+    constructor.
+    + intros x st H. apply S1. apply Old. exact H.
+    + intros m0 N. rewrite (S2 _ N). rewrite L2. destruct (Nat.eqb_spec m0 m'); [congruence|reflexivity].
+    + intros h. rewrite S3. apply L3.
+    + exists (n0 :: ids), r''. simpl in R2, R3, R4, R5. repeat split; auto.
+      * rewrite R4. rewrite <- app_assoc. reflexivity.
+      * rewrite R5. rewrite <- app_assoc. reflexivity.
+      * constructor.
+        -- split; [apply get_st_ge; unfold n0; lia|]. exists sta. split; auto. apply S1. rewrite L1, Nat.eqb_refl. reflexivity.
+        -- eapply Forall2_impl_in; [|exact R6]. simpl. intros id a0 Hin [G1 [st0 [G2 G3]]]. split.
+           ++ destruct (get_st w id) as [y|] eqn:E; auto. apply Old in E. congruence.
+           ++ exists st0. split; auto. rewrite L1 in G2. destruct (Nat.eqb_spec a0 n0); auto. subst. exfalso.
+              destruct (Hl n0) as [y [Gy _]]; [rewrite in_app_iff; right; right; exact Hin|].
+              apply get_st_lt in Gy. unfold n0 in Gy. lia.
+      * intros x st H1 H2. destruct (Nat.eq_dec x n0); [left; auto|right].
+        eapply R7; eauto. rewrite L1. destruct (Nat.eqb_spec x n0); [congruence|exact H2].
+Qed.
+
+Lemma clone_persistent_from_spec w m' src rs r' :
+  inv w -> src <> m' -> get_mesh w src = Some rs -> get_mesh w m' = Some r' ->
+  (forall s2 st2, get_st w s2 = Some st2 -> s_owner st2 = Some m' -> s_shared st2 = false) ->
+  inv (clone_persistent_from m' src w) /\ clone_spec m' (m_pers rs) w (clone_persistent_from m' src w) r'.
+Proof.
+  intros I Hne Hs Hm' Hns. split.
+  - apply inv_clone_persistent_from; eauto.
+  - unfold clone_persistent_from. rewrite Hs. apply (clone_fold_spec m' src (m_pers rs) [] w r'); auto.
+    + simpl. eapply (iv_pers_nodup _ _ I); eauto.
+    + simpl. intros x Hx. apply (iv_pers _ _ I _ _ x Hs). exact Hx.
+    + intros s2 st2 H2 O2 S2. rewrite (Hns _ _ H2 O2) in S2. discriminate.
+Qed.
+
+Lemma inv_copy_mesh w src : inv w -> inv (fst (copy_mesh src w)).
+Proof.
+  intros I. unfold copy_mesh. destruct (get_mesh w src) as [rs|] eqn:Hs; auto.
+  set (m := length (meshes w)). set (w1 := with_meshes (meshes w ++ [Some mesh_new]) w).
+  assert (I1 : inv w1) by (apply inv_append_mesh; exact I).
+  assert (M1 : get_mesh w1 m = Some mesh_new) by (unfold w1; rewrite get_mesh_app; fold m; rewrite Nat.eqb_refl; reflexivity).
+  assert (Ne : src <> m) by (apply get_mesh_lt in Hs; unfold m; lia).
+  assert (S1 : get_mesh w1 src = Some rs).
+  { unfold w1. rewrite get_mesh_app. fold m. destruct (Nat.eqb_spec src m); [congruence|exact Hs]. }
+  assert (Hns : forall s2 st2, get_st w1 s2 = Some st2 -> s_owner st2 = Some m -> s_shared st2 = false).
+  { intros s2 st2 H2 O2. exfalso. assert (In s2 (m_tracked mesh_new)) by (apply (iv_tracked _ _ I1 _ _ s2 M1); eauto). destruct H. }
+  destruct (clone_persistent_from_spec w1 m src rs mesh_new I1 Ne S1 M1 Hns) as [I2 [_ _ _ [ids [r2 [R1 [R2 _]]]]]].
+  set (w2 := clone_persistent_from m src w1) in *.
+  set (w3 := upd_mesh m (with_k (m_k rs)) w2).
+  assert (I3 : inv w3) by (eapply inv_sim; [apply sim_upd_mesh; intros; apply mrec_eq_with_k|exact I2]).
+  assert (M3 : get_mesh w3 m = Some (with_k (m_k rs) r2)) by (unfold w3; rewrite get_mesh_upd_mesh, Nat.eqb_refl, R1; reflexivity).
+  destruct (make_prop m w3) as [[w4 p]|] eqn:MP; [|exact I].
+  destruct (make_prop_spec _ _ _ _ _ I3 MP) as [I4 [[st [Hp Ho]] [Hm4 _]]].
+  destruct (Hm4 _ M3) as [r4 [H4 [P4 _]]]. simpl in P4, R2. rewrite R2 in P4.
+  pose proof (inv_replace_pos _ w4 m r4 p st I4 H4 Hp Ho) as I5. rewrite P4 in I5. simpl in I5.
+  destruct (m_pos rs) as [sp|]; [|exact I].
+  destruct (copy_positions sp p (upd_mesh m (with_pos (Some p)) w4)) as [w6|] eqn:CP; [|exact I].
+  cbn [fst]. eapply inv_sim; [eapply sim_copy_positions; eauto|exact I5].
+Qed.
+
+(* ====================================================================== what clear_props leaves behind *)
+
+Lemma wle_clear_props w m k : wle w (clear_props m k w).
+Proof.
+  unfold clear_props. destruct (get_mesh w m) as [r|]; [|apply wle_refl].
+  set (w1 := fold_left (fun w s => unpersist m s w) (pers_k w r k) w).
+  assert (L1 : wle w w1) by (apply wle_fold; intros; apply wle_unpersist).
+  destruct (get_mesh w1 m) as [r1|]; auto.
+  eapply wle_trans; [exact L1|]. apply wle_fold. intros w0 a. apply wle_upd_st.
+  intros st. repeat split; simpl; auto. discriminate.
+Qed.
+
+Lemma wle_clear_all_props w m : wle w (clear_all_props m w).
+Proof. unfold clear_all_props. apply wle_fold. intros; apply wle_clear_props. Qed.
+
+Lemma clear_props_mesh w m k r :
+  get_mesh w m = Some r ->
+  exists r', get_mesh (clear_props m k w) m = Some r' /\ m_pos r' = m_pos r /\ m_k r' = m_k r /\
+             incl (m_tracked r') (m_tracked r) /\ incl (m_pers r') (m_pers r).
+Proof.
+  intros Hm. unfold clear_props. rewrite Hm.
+  destruct (fold_unpersist_mesh m (pers_k w r k) w r Hm) as [r1 [H1 [P1 [Q1 [K1 T1]]]]].
+  rewrite H1. exists r1. rewrite get_mesh_fold_upd_st. repeat split; auto.
+  intros x Hx. apply P1 in Hx. tauto.
+Qed.
+
+Lemma clear_all_props_mesh w m r :
+  get_mesh w m = Some r ->
+  exists r', get_mesh (clear_all_props m w) m = Some r' /\ m_pos r' = m_pos r /\ m_k r' = m_k r /\
+             incl (m_tracked r') (m_tracked r) /\ incl (m_pers r') (m_pers r).
+Proof.
+  unfold clear_all_props. generalize all_kinds. intros l. revert w r.
+  induction l as [|k t IH]; intros w r Hm; simpl.
+  - exists r. repeat split; auto using incl_refl.
+  - destruct (clear_props_mesh w m k r Hm) as [r1 [H1 [P1 [K1 [T1 Q1]]]]].
+    destruct (IH _ _ H1) as [r' [H' [P' [K' [T' Q']]]]]. exists r'. repeat split; try congruence; eapply incl_tran; eauto.
+Qed.
+
+Lemma clear_props_unshared w m k s st' :
+  inv w -> get_st (clear_props m k w) s = Some st' -> s_owner st' = Some m -> s_kind st' = k -> s_shared st' = false.
+Proof.
+  intros I. unfold clear_props. destruct (get_mesh w m) as [r|] eqn:Hm.
+  2:{ intros Hs Ho _. destruct (iv_owner _ _ I _ _ _ Hs Ho) as [r Hr]. congruence. }
+  set (l := pers_k w r k).
+  assert (I1 : inv (fold_left (fun w s => unpersist m s w) l w)).
+  { apply inv_fold_unpersist; auto.
+    - apply NoDup_filter. eapply (iv_pers_nodup _ _ I); eauto.
+    - intros x Hx. unfold l, pers_k in Hx. apply filter_In in Hx. exists r. tauto. }
+  destruct (fold_unpersist_mesh m l w r Hm) as [r1 [H1 _]].
+  set (w1 := fold_left (fun w s => unpersist m s w) l w) in *. rewrite H1.
+  rewrite (get_st_fold_upd_st (with_shared false)); [|intros; reflexivity].
+  destruct (memb s (tracked_k w1 r1 k)) eqn:Mb.
+  - destruct (get_st w1 s); simpl; intros E; inversion E; subst. reflexivity.
+  - intros Hs Ho Hk. exfalso.
+    assert (In s (tracked_k w1 r1 k)); [|apply memb_In' in H; congruence].
+    unfold tracked_k. apply filter_In. split.
+    + apply (iv_tracked _ _ I1 _ _ s H1). eauto.
+    + unfold is_kind. rewrite Hs. subst k. apply kind_eqb_refl.
+Qed.
+
+Lemma clear_all_props_unshared_gen (m : nat) : forall l w0,
+  inv w0 -> forall s st', get_st (fold_left (fun w k => clear_props m k w) l w0) s = Some st' -> s_owner st' = Some m ->
+  (In (s_kind st') l \/ exists st, get_st w0 s = Some st /\ s_shared st = false) -> s_shared st' = false.
+Proof.
+  induction l as [|k t IH]; intros w0 I s st' Hs Ho H; simpl in *.
+  - destruct H as [[]|[st [G Sh]]]. congruence.
+  - set (w1 := clear_props m k w0) in *.
+    assert (I1 : inv w1) by (apply inv_clear_props; exact I).
+    assert (L : wle w1 (fold_left (fun w k => clear_props m k w) t w1)) by (apply wle_fold; intros; apply wle_clear_props).
+    destruct (L _ _ Hs) as [st1 [G1 [_ [_ [K1 [_ [O1 _]]]]]]].
+    eapply (IH w1 I1 s st'); eauto.
+    destruct H as [[E|Hin]|[st [G Sh]]]; auto.
+    + right. exists st1. split; auto. eapply (clear_props_unshared w0 m k s st1); eauto; congruence.
+    + right. exists st1. split; auto.
+      destruct (wle_clear_props w0 m k _ _ G1) as [st0 [G0 [_ [_ [_ [_ [_ [_ [Sh0 _]]]]]]]]].
+      rewrite G in G0. inversion G0; subst. destruct (s_shared st1); auto. rewrite Sh0 in Sh; auto.
+Qed.
+
+Lemma clear_all_props_unshared w m s st' :
+  inv w -> get_st (clear_all_props m w) s = Some st' -> s_owner st' = Some m -> s_shared st' = false.
+Proof.
+  intros I Hs Ho. eapply (clear_all_props_unshared_gen m all_kinds w I s st'); eauto.
+  left. unfold all_kinds. destruct (s_kind st'); simpl; tauto.
+Qed.
+
+Lemma get_h_release' w s h : get_h (release s w) h = get_h w h.
+Proof. apply get_h_release. Qed.
+
+Lemma get_h_unpersist w m s h : get_h (unpersist m s w) h = get_h w h.
+Proof. unfold unpersist, pers_erase. rewrite get_h_release, get_h_upd_mesh, get_h_upd_st. reflexivity. Qed.
+
+Lemma get_h_clear_props w m k h : get_h (clear_props m k w) h = get_h w h.
+Proof.
+  unfold clear_props. destruct (get_mesh w m) as [r|]; auto.
+  assert (forall l w0, get_h (fold_left (fun w s => unpersist m s w) l w0) h = get_h w0 h).
+  { induction l as [|a t IH]; intros w0; simpl; auto. rewrite IH. apply get_h_unpersist. }
+  destruct (get_mesh _ m); rewrite ?get_h_fold_upd_st; apply H.
+Qed.
+
+Lemma get_h_clear_all_props w m h : get_h (clear_all_props m w) h = get_h w h.
+Proof.
+  unfold clear_all_props. generalize all_kinds. intros l. revert w.
+  induction l as [|k t IH]; intros w; simpl; auto. rewrite IH. apply get_h_clear_props.
+Qed.
+
+(* ====================================================================== frames: what an operation on mesh m1 cannot touch *)
+
+Definition frame (m1 : nat) (w w' : world) : Prop :=
+  (forall m2, m2 <> m1 -> get_mesh w' m2 = get_mesh w m2) /\
+  (forall s st m2, m2 <> m1 -> get_st w s = Some st -> s_owner st = Some m2 -> get_st w' s = Some st).
+
+Lemma frame_refl m1 w : frame m1 w w.
+Proof. split; auto. Qed.
+Lemma frame_trans m1 a b c : frame m1 a b -> frame m1 b c -> frame m1 a c.
+Proof.
+  intros [A1 A2] [B1 B2]. split.
+  - intros m2 N. rewrite (B1 _ N). apply A1; exact N.
+  - intros s st m2 N H O. eapply B2; eauto.
+Qed.
+
+Definition owned_by (m1 : nat) (w : world) (s : nat) : Prop :=
+  forall st, get_st w s = Some st -> s_owner st = Some m1 \/ s_owner st = None.
+
+Lemma frame_upd_mesh m1 w f : frame m1 w (upd_mesh m1 f w).
+Proof.
+  split.
+  - intros m2 N. rewrite get_mesh_upd_mesh. destruct (Nat.eqb_spec m2 m1); [congruence|reflexivity].
+  - intros s st m2 N H O. rewrite get_st_upd_mesh. exact H.
+Qed.
+
+Lemma frame_upd_st m1 w s f : owned_by m1 w s -> frame m1 w (upd_st s f w).
+Proof.
+  intros Hs. split.
+  - intros m2 N. apply get_mesh_upd_st.
+  - intros x st m2 N H O. rewrite get_st_upd_st. destruct (Nat.eqb_spec x s); subst; auto.
+    destruct (Hs _ H); congruence.
+Qed.
+
+Lemma frame_alloc m1 w st : s_owner st = Some m1 \/ s_owner st = None -> frame m1 w (fst (alloc st w)).
+Proof.
+  intros Ho. split.
+  - intros m2 N. rewrite get_mesh_alloc. destruct Ho as [-> | ->]; auto.
+    destruct (Nat.eqb_spec m2 m1); [congruence|reflexivity].
+  - intros x y m2 N H O. rewrite get_st_alloc. destruct (Nat.eqb_spec x (length (heap w))); auto.
+    apply get_st_lt in H. lia.
+Qed.
+
+Lemma frame_free m1 w s : owned_by m1 w s -> frame m1 w (free s w).
+Proof.
+  intros Hs. split.
+  - intros m2 N. rewrite get_mesh_free. destruct (get_st w s) as [st|] eqn:E; auto.
+    destruct (Hs _ E) as [-> | ->]; auto. destruct (Nat.eqb_spec m2 m1); [congruence|reflexivity].
+  - intros x y m2 N H O. rewrite get_st_free. destruct (Nat.eqb_spec x s); subst; auto.
+    destruct (Hs _ H); congruence.
+Qed.
+
+Lemma frame_release m1 w s : owned_by m1 w s -> frame m1 w (release s w).
+Proof. intros Hs. unfold release. destruct (held w s); [apply frame_refl|apply frame_free; exact Hs]. Qed.
+
+Lemma frame_handles m1 w hs : frame m1 w (with_handles hs w).
+Proof. split; auto. Qed.
+
+Lemma owned_by_upd_mesh m1 w m f s : owned_by m1 w s -> owned_by m1 (upd_mesh m f w) s.
+Proof. intros H st. rewrite get_st_upd_mesh. apply H. Qed.
+
+Lemma owned_by_wle m1 w w' s : wle w w' -> owned_by m1 w s -> owned_by m1 w' s.
+Proof.
+  intros L H st' Hs. destruct (L _ _ Hs) as [st [G [_ [_ [_ [_ [O _]]]]]]]. rewrite O. apply H. exact G.
+Qed.
+
+Lemma frame_unpersist m1 w s : owned_by m1 w s -> frame m1 w (unpersist m1 s w).
+Proof.
+  intros Hs. unfold unpersist, pers_erase.
+  eapply frame_trans; [apply frame_upd_st; exact Hs|].
+  eapply frame_trans; [apply frame_upd_mesh|].
+  apply frame_release. apply owned_by_upd_mesh. eapply owned_by_wle; [|exact Hs].
+  apply wle_upd_st. intros st. repeat split; simpl; auto. discriminate.
+Qed.
+
+Lemma frame_fold {A} (F : world -> A -> world) (P : world -> Prop) m1 l :
+  (forall w a, In a l -> P w -> frame m1 w (F w a) /\ P (F w a)) ->
+  forall w, P w -> frame m1 w (fold_left F l w) /\ P (fold_left F l w).
+Proof.
+  induction l as [|a t IH]; intros H w Pw; simpl.
+  - split; auto using frame_refl.
+  - destruct (H w a (or_introl eq_refl) Pw) as [F1 P1].
+    destruct (IH (fun w0 b Hb => H w0 b (or_intror Hb)) _ P1) as [F2 P2]. split; auto. eapply frame_trans; eauto.
+Qed.
+
+Lemma frame_clear_props w m k : inv w -> frame m w (clear_props m k w).
+Proof.
+  intros I. unfold clear_props. destruct (get_mesh w m) as [r|] eqn:Hm; [|apply frame_refl].
+  set (l := pers_k w r k).
+  assert (O1 : forall x, In x l -> owned_by m w x).
+  { intros x Hx st Hs. unfold l, pers_k in Hx. apply filter_In in Hx. destruct Hx as [Hx _].
+    apply (iv_pers _ _ I _ _ x Hm) in Hx. destruct Hx as [y [Hy [Oy _]]]. rewrite Hs in Hy. inversion Hy; subst. auto. }
+  destruct (frame_fold (fun w s => unpersist m s w) (fun w0 => forall x, In x l -> owned_by m w0 x) m l) with (w := w) as [F1 P1]; auto.
+  { intros w0 a Ha P0. split.
+    - apply frame_unpersist. apply P0. exact Ha.
+    - intros x Hx. eapply owned_by_wle; [apply wle_unpersist|]. apply P0. exact Hx. }
+  set (w1 := fold_left (fun w s => unpersist m s w) l w) in *.
+  assert (I1 : inv w1).
+  { apply inv_fold_unpersist; auto.
+    - apply NoDup_filter. eapply (iv_pers_nodup _ _ I); eauto.
+    - intros x Hx. unfold l, pers_k in Hx. apply filter_In in Hx. exists r. tauto. }
+  destruct (get_mesh w1 m) as [r1|] eqn:H1; auto.
+  eapply frame_trans; [exact F1|].
+  destruct (frame_fold (fun w s => upd_st s (with_shared false) w)
+                       (fun w0 => forall x, In x (tracked_k w1 r1 k) -> owned_by m w0 x) m (tracked_k w1 r1 k)) with (w := w1) as [F2 _]; auto.
+  - intros w0 a Ha P0. split.
+    + apply frame_upd_st. apply P0. exact Ha.
+    + intros x Hx. eapply owned_by_wle; [|apply P0; exact Hx]. apply wle_upd_st.
+      intros st. repeat split; simpl; auto. discriminate.
+  - intros x Hx st Hs. unfold tracked_k in Hx. apply filter_In in Hx. destruct Hx as [Hx _].
+    apply (iv_tracked _ _ I1 _ _ x H1) in Hx. destruct Hx as [y [Hy Oy]]. rewrite Hs in Hy. inversion Hy; subst. auto.
+Qed.
+
+Lemma frame_clear_all_props w m : inv w -> frame m w (clear_all_props m w).
+Proof.
+  unfold clear_all_props. generalize all_kinds. intros l. revert w.
+  induction l as [|k t IH]; intros w I; simpl; [apply frame_refl|].
+  eapply frame_trans; [apply frame_clear_props; exact I|]. apply IH. apply inv_clear_props. exact I.
+Qed.
+
+(* ====================================================================== assignment *)
+
+Lemma sim_resize_tracked w m cnt : sim w (resize_tracked m cnt w).
+Proof.
+  unfold resize_tracked. destruct (get_mesh w m) as [r|]; [|apply sim_refl].
+  refine (sim_fold_upd_st (m_tracked r) (fun s => s) (fun _ st => with_data (resize (cnt (s_kind st)) (s_def st) (s_data st)) st) w _).
+  intros _ st. apply fields_eq_with_data.
+Qed.
+
+Lemma get_mesh_resize_tracked w m cnt m0 : get_mesh (resize_tracked m cnt w) m0 = get_mesh w m0.
+Proof.
+  unfold resize_tracked. destruct (get_mesh w m) as [r|]; auto.
+  exact (get_mesh_fold_upd_st (fun s => s) (fun _ st => with_data (resize (cnt (s_kind st)) (s_def st) (s_data st)) st) (m_tracked r) w m0).
+Qed.
+
+(* the world just before make_prop in operator=, with what is known about it *)
+Lemma assign_prefix w dst src rd rs :
+  inv w -> dst <> src -> get_mesh w dst = Some rd -> get_mesh w src = Some rs ->
+  let w1 := clear_all_props dst w in
+  let w2 := resize_tracked dst (fun k => count k (m_k rs)) w1 in
+  let w3 := clone_persistent_from dst src w2 in
+  inv w1 /\ inv w2 /\ inv w3 /\
+  get_mesh w2 src = Some rs /\
+  (exists r2, get_mesh w2 dst = Some r2 /\ m_pos r2 = m_pos rd /\ clone_spec dst (m_pers rs) w2 w3 r2) /\
+  (forall s2 st2, get_st w2 s2 = Some st2 -> s_owner st2 = Some dst -> s_shared st2 = false).
+Proof.
+  intros I Ne Hd Hs w1 w2 w3.
+  assert (I1 : inv w1) by (apply inv_clear_all_props; exact I).
+  assert (I2 : inv w2) by (eapply inv_sim; [apply sim_resize_tracked|exact I1]).
+  assert (S1 : get_mesh w1 src = Some rs).
+  { destruct (frame_clear_all_props w dst I) as [F _]. unfold w1. rewrite F; auto. }
+  assert (S2 : get_mesh w2 src = Some rs) by (unfold w2; rewrite get_mesh_resize_tracked; exact S1).
+  destruct (clear_all_props_mesh w dst rd Hd) as [r1 [H1 [P1 _]]].
+  assert (D2 : get_mesh w2 dst = Some r1) by (unfold w2; rewrite get_mesh_resize_tracked; exact H1).
+  assert (Hns : forall s2 st2, get_st w2 s2 = Some st2 -> s_owner st2 = Some dst -> s_shared st2 = false).
+  { intros s2 st2 H2 O2. destruct (sim_st _ _ _ _ (sim_resize_tracked w1 dst _) H2) as [st1 [G1 F1]].
+    unfold fields_eq in F1. replace (s_shared st2) with (s_shared st1) by tauto.
+    eapply (clear_all_props_unshared w dst s2 st1); eauto. intuition congruence. }
+  assert (Ne' : src <> dst) by congruence.
+  destruct (clone_persistent_from_spec w2 dst src rs r1 I2 Ne' S2 D2 Hns) as [I3 CS].
+  split; [exact I1|split; [exact I2|split; [exact I3|split; [exact S2|split; [|exact Hns]]]]].
+  exists r1. split; [exact D2|split; [exact P1|exact CS]].
+Qed.
+
+Lemma inv_assign w dst src : inv w -> inv (fst (assign dst src w)).
+Proof.
+  intros I. unfold assign. destruct (get_mesh w dst) as [rd|] eqn:Hd; [|exact I].
+  destruct (get_mesh w src) as [rs|] eqn:Hs; [|exact I].
+  destruct (Nat.eqb_spec dst src) as [E|Ne].
+  - destruct (temp_copy_ub dst w); exact I.
+  - destruct (assign_prefix w dst src rd rs I Ne Hd Hs) as [I1 [I2 [I3 [S2 [[r2 [D2 [P2 CS]]] Hns]]]]].
+    set (w3 := clone_persistent_from dst src (resize_tracked dst (fun k => count k (m_k rs)) (clear_all_props dst w))) in *.
+    destruct CS as [_ _ _ [ids [r3 [R1 [R2 _]]]]].
+    set (w4 := upd_mesh dst (with_k (m_k rs)) w3).
+    assert (I4 : inv w4) by (eapply inv_sim; [apply sim_upd_mesh; intros; apply mrec_eq_with_k|exact I3]).
+    assert (M4 : get_mesh w4 dst = Some (with_k (m_k rs) r3)) by (unfold w4; rewrite get_mesh_upd_mesh, Nat.eqb_refl, R1; reflexivity).
+    destruct (make_prop dst w4) as [[w5 p]|] eqn:MP; [|exact I].
+    destruct (make_prop_spec _ _ _ _ _ I4 MP) as [I5 [[st [Hp Ho]] [Hm5 _]]].
+    destruct (Hm5 _ M4) as [r5 [H5 [P5 _]]]. rewrite H5.
+    pose proof (inv_replace_pos _ w5 dst r5 p st I5 H5 Hp Ho) as I7. unfold release_opt in I7.
+    destruct (m_pos rs) as [sp|]; [|exact I].
+    match goal with |- context [copy_positions sp p ?W] => destruct (copy_positions sp p W) as [w8|] eqn:CP; [|exact I] end.
+    destruct (temp_copy_ub dst w8); [exact I|]. cbn [fst].
+    eapply inv_sim; [eapply sim_copy_positions; eauto|exact I7].
+Qed.
+
+(* ====================================================================== TopologyKernel calls *)
+
+Lemma sim_scatter_k w0 r s' w k : sim w (scatter_k w0 r s' w k).
+Proof.
+  unfold scatter_k.
+  refine (sim_fold_upd_st (combine (tracked_k w0 r k) (props k s')) (fun sp => fst sp) (fun sp => with_data (pdata (snd sp))) w _).
+  intros a st. apply fields_eq_with_data.
+Qed.
+
+Lemma sim_scatter_all w0 r s' : forall l w, sim w (fold_left (scatter_k w0 r s') l w).
+Proof.
+  induction l as [|k t IH]; intros w; simpl; [apply sim_refl|].
+  eapply sim_trans; [apply sim_scatter_k|apply IH].
+Qed.
+
+Lemma kernel_op_sim m o w r s' ret :
+  get_mesh w m = Some r -> step (load_props w r) o = Ok s' ret ->
+  sim w (upd_mesh m (with_k (strip s')) (fold_left (scatter_k w r s') all_kinds w)).
+Proof.
+  intros _ _. eapply sim_trans; [apply sim_scatter_all|]. apply sim_upd_mesh. intros; apply mrec_eq_with_k.
+Qed.
+
+Lemma inv_kernel_op w m o : inv w -> inv (fst (kernel_op m o w)).
+Proof.
+  intros I. unfold kernel_op. destruct (get_mesh w m) as [r|] eqn:Hm; [|exact I].
+  destruct (kernel_allowed o); [|exact I].
+  destruct (step (load_props w r) o) as [s' ret|] eqn:St; [|exact I].
+  cbn [fst].
+  assert (I2 : inv (upd_mesh m (with_k (strip s')) (fold_left (scatter_k w r s') all_kinds w))).
+  { eapply inv_sim; [eapply kernel_op_sim; eauto|exact I]. }
+  destruct o; auto. destruct clear_props; auto. apply inv_clear_all_props. exact I2.
+Qed.
+
+(* ====================================================================== the well-formed use of the API *)
+
+(* The three ways the documented discipline can be left (all unchecked by the library):
+   - set_name on a shared property (D10),
+   - set_shared / set_persistent on mesh m with a property that is not attached to m. *)
+Definition op_ok (w : world) (o : rop) : Prop :=
+  match o with
+  | SetName h n => forall s st, get_h w h = Some s -> get_st w s = Some st -> s_shared st = false
+  | SetShared m h b | SetPersistent m h b =>
+      forall s st, get_h w h = Some s -> get_st w s = Some st -> s_owner st = Some m
+  | _ => True
+  end.
+
+Theorem inv_rstep w o : inv w -> op_ok w o -> inv (fst (rstep w o)).
+Proof.
+  intros I Hok. destruct o; unfold rstep.
+  - apply inv_new_mesh; exact I.
+  - apply inv_copy_mesh; exact I.
+  - apply inv_assign; exact I.
+  - apply inv_destroy_mesh; exact I.
+  - apply inv_kernel_op; exact I.
+  - (* Request *)
+    destruct (get_mesh w m) as [r|] eqn:Hm; [|exact I].
+    destruct (find_prop w m k t n) as [s|] eqn:F.
+    + rewrite fst_ret_handle. destruct (find_prop_owner _ _ _ _ _ _ _ I F) as [st [Hs _]]. eapply inv_new_handle'; eauto.
+    + destruct (create w m r k t n d (negb (n =? 0))) as [w1 s] eqn:C. rewrite fst_ret_handle.
+      replace w1 with (fst (create w m r k t n d (negb (n =? 0)))) by (rewrite C; reflexivity).
+      replace s with (snd (create w m r k t n d (negb (n =? 0)))) by (rewrite C; reflexivity).
+      apply inv_create_handle; auto. intros Hb. split; auto. destruct (Nat.eqb_spec n 0); [discriminate|assumption].
+  - (* CreateShared *)
+    destruct (get_mesh w m) as [r|] eqn:Hm; [|exact I].
+    destruct (Nat.eqb_spec n 0); [exact I|].
+    destruct (find_prop w m k t n) as [s|] eqn:F; [exact I|].
+    destruct (create w m r k t n d true) as [w1 s] eqn:C. rewrite fst_ret_handle.
+    replace w1 with (fst (create w m r k t n d true)) by (rewrite C; reflexivity).
+    replace s with (snd (create w m r k t n d true)) by (rewrite C; reflexivity).
+    apply inv_create_handle; auto.
+  - (* CreatePersistent *)
+    destruct (get_mesh w m) as [r|] eqn:Hm; [|exact I].
+    destruct (Nat.eqb_spec n 0); [exact I|].
+    destruct (find_prop w m k t n) as [s|] eqn:F; [exact I|].
+    destruct (create w m r k t n d true) as [w1 s] eqn:C.
+    destruct (new_handle s w1) as [w2 h] eqn:NH. cbn [fst].
+    assert (I2 : inv w2).
+    { replace w2 with (fst (new_handle s w1)) by (rewrite NH; reflexivity).
+      replace w1 with (fst (create w m r k t n d true)) by (rewrite C; reflexivity).
+      replace s with (snd (create w m r k t n d true)) by (rewrite C; reflexivity).
+      apply inv_create_handle; auto. }
+    assert (E1 : w1 = fst (create w m r k t n d true)) by (rewrite C; reflexivity).
+    assert (E2 : s = length (heap w)) by (rewrite create_eq in C; inversion C; reflexivity).
+    assert (E3 : w2 = with_handles (handles w1 ++ [Some s]) w1) by (inversion NH; reflexivity).
+    assert (E4 : h = length (handles w1)) by (inversion NH; reflexivity).
+    assert (Hs : get_st w2 s = Some (mkSt n t k true false d (repeat d (count k (m_k r))) (Some m))).
+    { rewrite E3. change (get_st (with_handles (handles w1 ++ [Some s]) w1) s) with (get_st w1 s).
+      rewrite E1, get_st_create, E2, Nat.eqb_refl. reflexivity. }
+    assert (Hm2 : exists r2, get_mesh w2 m = Some r2).
+    { rewrite E3. change (get_mesh (with_handles (handles w1 ++ [Some s]) w1) m) with (get_mesh w1 m).
+      rewrite E1, create_eq, get_mesh_alloc. simpl. rewrite Nat.eqb_refl, Hm. simpl. eauto. }
+    destruct Hm2 as [r2 Hr2].
+    assert (Hh : get_h w2 h = Some s) by (rewrite E3, get_h_app, E4, Nat.eqb_refl; reflexivity).
+    eapply (inv_set_persistent_s w2 m s true _ r2 h); eauto.
+  - (* CreatePrivate *)
+    destruct (get_mesh w m) as [r|] eqn:Hm; [|exact I].
+    destruct (create w m r k t n d false) as [w1 s] eqn:C. rewrite fst_ret_handle.
+    replace w1 with (fst (create w m r k t n d false)) by (rewrite C; reflexivity).
+    replace s with (snd (create w m r k t n d false)) by (rewrite C; reflexivity).
+    apply inv_create_handle; auto. discriminate.
+  - (* GetProp *)
+    destruct (get_mesh w m) as [r|] eqn:Hm; [|exact I].
+    destruct (find_prop w m k t n) as [s|] eqn:F; [|exact I].
+    rewrite fst_ret_handle. destruct (find_prop_owner _ _ _ _ _ _ _ I F) as [st [Hs _]]. eapply inv_new_handle'; eauto.
+  - (* Exists *)
+    destruct (get_mesh w m); exact I.
+  - (* SetShared *)
+    destruct (get_mesh w m) as [r|] eqn:Hm; [|exact I].
+    destruct (get_h w h) as [s|] eqn:Hh; [|exact I].
+    destruct (iv_handle _ _ I _ _ Hh) as [st Hs].
+    eapply inv_set_shared_s; eauto.
+  - (* SetPersistent *)
+    destruct (get_mesh w m) as [r|] eqn:Hm; [|exact I].
+    destruct (get_h w h) as [s|] eqn:Hh; [|exact I].
+    destruct (iv_handle _ _ I _ _ Hh) as [st Hs].
+    eapply inv_set_persistent_s; eauto.
+  - (* SetName *)
+    destruct (get_h w h) as [s|] eqn:Hh; [|exact I]. cbn [fst].
+    destruct (iv_handle _ _ I _ _ Hh) as [st Hs]. eapply inv_set_name; eauto.
+  - (* HCopy *)
+    destruct (get_h w h) as [s|] eqn:Hh; [|exact I]. rewrite fst_ret_handle.
+    destruct (iv_handle _ _ I _ _ Hh) as [st Hs]. eapply inv_new_handle'; eauto.
+  - (* HMove *)
+    destruct (get_h w h) as [s|] eqn:Hh; [|exact I]. rewrite fst_ret_handle. apply inv_move_handle; auto.
+  - (* HDrop *)
+    destruct (get_h w h) as [s|] eqn:Hh; [|exact I]. cbn [fst]. apply inv_drop_handle; exact I.
+  - (* HSet *)
+    destruct (get_h w h) as [s|] eqn:Hh; [|exact I].
+    destruct (get_st w s) as [st|] eqn:Hs; [|exact I].
+    destruct (i <? length (s_data st)); [|exact I]. cbn [fst].
+    eapply inv_sim; [apply sim_upd_st; intros; apply fields_eq_with_data|exact I].
+  - (* PosHandle *)
+    destruct (get_mesh w m) as [r|] eqn:Hm; [|exact I].
+    destruct (m_pos r) as [p|] eqn:Hp; [|exact I]. rewrite fst_ret_handle.
+    destruct (iv_pos _ _ I _ _ _ Hm Hp) as [st [Hs _]]. eapply inv_new_handle'; eauto.
+  - (* ClearProps *)
+    destruct (get_mesh w m); [|exact I]. cbn [fst]. apply inv_clear_props; exact I.
+  - (* ClearAllProps *)
+    destruct (get_mesh w m); [|exact I]. cbn [fst]. apply inv_clear_all_props; exact I.
+  - destruct (get_mesh w m); exact I.
+  - destruct (get_mesh w m); exact I.
+Qed.
+
+(* ====================================================================== reachable worlds *)
+
+Inductive reachable : world -> Prop :=
+| reach_init : reachable empty_world
+| reach_step w o : reachable w -> op_ok w o -> reachable (fst (rstep w o)).
+
+Fixpoint all_ok (w : world) (ops : list rop) : Prop :=
+  match ops with
+  | [] => True
+  | o :: t => op_ok w o /\ all_ok (fst (rstep w o)) t
+  end.
+
+Theorem reachable_inv w : reachable w -> inv w.
+Proof. induction 1; [apply inv_empty|apply inv_rstep; assumption]. Qed.
+
+Lemma reachable_run_from w ops : reachable w -> all_ok w ops -> reachable (rrun_from w ops).
+Proof.
+  revert w. induction ops as [|o t IH]; intros w R H; simpl; auto.
+  destruct H as [H1 H2]. apply IH; auto. constructor; auto.
+Qed.
+
+Theorem reachable_run ops : all_ok empty_world ops -> reachable (rrun ops).
+Proof. apply reachable_run_from. constructor. Qed.
+
+(* ====================================================================== C14 statements over inv *)
+
+Theorem exists_iff_held w s : inv w -> ((exists st, get_st w s = Some st) <-> held w s = true).
+Proof.
+  intros I. split.
+  - intros [st Hs]. eapply (iv_held _ _ I); eauto.
+  - intros H. apply held_spec in H. destruct H as [[h Hh]|[m [r [Hm [Hp|Hp]]]]].
+    + eapply (iv_handle _ _ I); eauto.
+    + destruct (iv_pos _ _ I _ _ _ Hm Hp) as [st [Hs _]]. eauto.
+    + apply (iv_pers _ _ I _ _ s Hm) in Hp. destruct Hp as [st [Hs _]]. eauto.
+Qed.
+
+Theorem tracked_k_exact w m r k s :
+  inv w -> get_mesh w m = Some r ->
+  (In s (tracked_k w r k) <-> exists st, get_st w s = Some st /\ s_owner st = Some m /\ s_kind st = k).
+Proof.
+  intros I Hm. unfold tracked_k. rewrite filter_In, (iv_tracked _ _ I _ _ s Hm). unfold is_kind. split.
+  - intros [[st [Hs Ho]] Hk]. rewrite Hs in Hk. exists st. repeat split; auto. destruct (kind_eqb_spec (s_kind st) k); congruence.
+  - intros [st [Hs [Ho Hk]]]. split; eauto. rewrite Hs. subst. apply kind_eqb_refl.
+Qed.
+
+Theorem pers_k_exact w m r k s :
+  inv w -> get_mesh w m = Some r ->
+  (In s (pers_k w r k) <-> exists st, get_st w s = Some st /\ s_owner st = Some m /\ s_pers st = true /\ s_kind st = k).
+Proof.
+  intros I Hm. unfold pers_k. rewrite filter_In, (iv_pers _ _ I _ _ s Hm). unfold is_kind. split.
+  - intros [[st [Hs [Ho Hp]]] Hk]. rewrite Hs in Hk. exists st. repeat split; auto. destruct (kind_eqb_spec (s_kind st) k); congruence.
+  - intros [st [Hs [Ho [Hp Hk]]]]. split; eauto. rewrite Hs. subst. apply kind_eqb_refl.
+Qed.
+
+(* request: the existing shared storage iff one exists, else a new one *)
+Theorem request_hit w m r k t n d s st :
+  inv w -> get_mesh w m = Some r -> get_st w s = Some st -> s_owner st = Some m -> matches k t n st = true -> n <> 0 ->
+  let '(w', res) := rstep w (Request m k t n d) in
+  res = RHandle (length (handles w)) /\ get_h w' (length (handles w)) = Some s /\ heap w' = heap w /\ meshes w' = meshes w.
+Proof.
+  intros I Hm Hs Ho Hmt Hn. unfold rstep. rewrite Hm.
+  rewrite (find_prop_complete _ w m r k t n s st I Hn Hm Hs Ho Hmt).
+  unfold ret_handle, new_handle. repeat split; auto. rewrite get_h_app, Nat.eqb_refl. reflexivity.
+Qed.
+
+Theorem request_miss w m r k t n d :
+  inv w -> get_mesh w m = Some r ->
+  (forall s st, get_st w s = Some st -> s_owner st = Some m -> matches k t n st = false) ->
+  let '(w', res) := rstep w (Request m k t n d) in
+  let s' := length (heap w) in
+  res = RHandle (length (handles w)) /\ get_h w' (length (handles w)) = Some s' /\
+  get_st w' s' = Some (mkSt n t k (negb (n =? 0)) false d (repeat d (count k (m_k r))) (Some m)) /\
+  (forall x y, get_st w x = Some y -> get_st w' x = Some y).
+Proof.
+  intros I Hm Hnone. unfold rstep. rewrite Hm.
+  destruct (find_prop w m k t n) as [s|] eqn:F.
+  - destruct (find_prop_owner _ _ _ _ _ _ _ I F) as [st [Hs [Ho [Hmt _]]]]. rewrite (Hnone _ _ Hs Ho) in Hmt. discriminate.
+  - rewrite create_eq.
+    set (st0 := mkSt n t k (negb (n =? 0)) false d (repeat d (count k (m_k r))) (Some m)).
+    destruct (alloc st0 w) as [w1 s1] eqn:A.
+    assert (E1 : w1 = fst (alloc st0 w)) by (rewrite A; reflexivity).
+    assert (E2 : s1 = length (heap w)) by (unfold alloc in A; inversion A; reflexivity).
+    assert (E3 : handles w1 = handles w).
+    { rewrite E1. unfold alloc; simpl. destruct (s_owner st0); unfold tracker_add; rewrite ?handles_upd_mesh; reflexivity. }
+    unfold ret_handle, new_handle. cbv beta iota. rewrite <- E3.
+    assert (G : forall x, get_st (with_handles (handles w1 ++ [Some s1]) w1) x = get_st w1 x) by reflexivity.
+    split; [reflexivity|]. split; [rewrite get_h_app, Nat.eqb_refl, E2; reflexivity|]. split.
+    + rewrite G, E1, get_st_alloc, Nat.eqb_refl. reflexivity.
+    + intros x y Hx. rewrite G, E1, get_st_alloc. destruct (Nat.eqb_spec x (length (heap w))); auto. apply get_st_lt in Hx. lia.
+Qed.
+
+(* create_* refuse duplicates (and the empty name) and change nothing *)
+Theorem create_refuses w m r k t n d s st :
+  inv w -> get_mesh w m = Some r -> get_st w s = Some st -> s_owner st = Some m -> matches k t n st = true ->
+  rstep w (CreateShared m k t n d) = (w, RNoHandle) /\ rstep w (CreatePersistent m k t n d) = (w, RNoHandle).
+Proof.
+  intros I Hm Hs Ho Hmt. unfold rstep. rewrite Hm. destruct (Nat.eqb_spec n 0); auto.
+  rewrite (find_prop_complete _ w m r k t n s st I n0 Hm Hs Ho Hmt). auto.
+Qed.
+
+(* whatever a lookup by name returns is shared: a private property is never found *)
+Theorem found_is_shared w m k t n s st :
+  find_prop w m k t n = Some s -> get_st w s = Some st -> s_shared st = true /\ s_name st = n /\ n <> 0.
+Proof.
+  intros F Hs. apply find_prop_sound in F. destruct F as [Hn [r [st' [_ [_ [Hs' Hmt]]]]]].
+  rewrite Hs in Hs'. inversion Hs'; subst. apply matches_spec in Hmt. tauto.
+Qed.
+
+(* transitions that do not return normally leave the world as it was *)
+Ltac head_destruct :=
+  repeat lazymatch goal with
+  | |- (match ?x with _ => _ end) = _ -> _ => destruct x eqn:?
+  | |- (_, _) = (_, _) -> _ => let E := fresh "E" in intros E; inversion E; subst; auto
+  end.
+
+Theorem failing_step_unchanged w o w' res :
+  rstep w o = (w', res) ->
+  match res with RThrow | RNoHandle | RRejected | RUB _ => w' = w | _ => True end.
+Proof.
+  destruct o; unfold rstep, new_mesh, copy_mesh, assign, destroy_mesh, kernel_op, set_shared_s, set_persistent_s, ret_handle;
+    cbv zeta; head_destruct.
+Qed.
+
+(* ====================================================================== a handle that outlives its mesh *)
+
+Lemma get_st_detach0 w m a x :
+  get_st (detach0 m a w) x = if x =? a then option_map (with_owner None) (get_st w x) else get_st w x.
+Proof. unfold detach0, pers_erase. rewrite get_st_upd_mesh. apply get_st_set_tracker. Qed.
+
+Lemma get_h_detach w m a h : get_h (detach m a w) h = get_h w h.
+Proof. rewrite detach_eq, get_h_release. apply detach0_h. Qed.
+
+Lemma get_st_detach_held w m a h s :
+  get_h w h = Some s ->
+  get_st (detach m a w) s = if s =? a then option_map (with_owner None) (get_st w s) else get_st w s.
+Proof.
+  intros Hh. rewrite detach_eq, get_st_release, get_st_detach0.
+  destruct (Nat.eqb_spec s a); subst; simpl; auto.
+  replace (held (detach0 m a w) a) with true; auto.
+  symmetry. apply held_spec. left. exists h. rewrite detach0_h. exact Hh.
+Qed.
+
+Lemma fold_detach_st m h s : forall l w,
+  get_h w h = Some s ->
+  get_st (fold_left (fun w a => detach m a w) l w) s =
+    (if memb s l then option_map (with_owner None) (get_st w s) else get_st w s) /\
+  get_h (fold_left (fun w a => detach m a w) l w) h = Some s.
+Proof.
+  induction l as [|a t IH]; intros w Hh; simpl; auto.
+  assert (Hh1 : get_h (detach m a w) h = Some s) by (rewrite get_h_detach; exact Hh).
+  destruct (IH _ Hh1) as [E1 E2]. split; auto. rewrite E1, (get_st_detach_held w m a h s Hh).
+  unfold memb. simpl. destruct (Nat.eqb_spec s a); subst; simpl.
+  - destruct (existsb (Nat.eqb a) t); auto. destruct (get_st w a); reflexivity.
+  - reflexivity.
+Qed.
+
+Theorem detached_keeps_data w m h s st :
+  inv w -> get_h w h = Some s -> get_st w s = Some st -> s_owner st = Some m ->
+  snd (rstep w (DelMesh m)) = ROk /\
+  let w' := fst (rstep w (DelMesh m)) in
+  get_h w' h = Some s /\ get_st w' s = Some (with_owner None st) /\ get_mesh w' m = None.
+Proof.
+  intros I Hh Hs Ho. destruct (iv_owner _ _ I _ _ _ Hs Ho) as [r Hm].
+  unfold rstep, destroy_mesh. rewrite Hm.
+  pose proof (inv_drop_pos w m r I Hm) as I2. unfold release_opt in I2.
+  set (w2 := match m_pos r with Some p => release p (upd_mesh m (with_pos None) w) | None => upd_mesh m (with_pos None) w end) in *.
+  assert (H2h : get_h w2 h = Some s).
+  { unfold w2. destruct (m_pos r); rewrite ?get_h_release, get_h_upd_mesh; exact Hh. }
+  assert (H2s : get_st w2 s = Some st).
+  { unfold w2. destruct (m_pos r) as [p|]; rewrite ?get_st_release, get_st_upd_mesh; auto.
+    destruct (Nat.eqb_spec s p); subst; simpl; auto.
+    replace (held (upd_mesh m (with_pos None) w) p) with true; auto.
+    symmetry. apply held_spec. left. exists h. rewrite get_h_upd_mesh. exact Hh. }
+  destruct (iv_owner _ _ I2 _ _ _ H2s Ho) as [r2 H2m]. rewrite H2m.
+  assert (P2 : m_pos r2 = None).
+  { assert (H1 : get_mesh (upd_mesh m (with_pos None) w) m = Some (with_pos None r)) by (rewrite get_mesh_upd_mesh, Nat.eqb_refl, Hm; reflexivity).
+    unfold w2 in H2m. destruct (m_pos r).
+    - destruct (get_mesh_release_inv _ _ _ _ H2m) as [r0 [E0 [_ [E2 _]]]]. rewrite H1 in E0. inversion E0; subst. exact E2.
+    - rewrite H1 in H2m. inversion H2m; subst. reflexivity. }
+  destruct (inv_fold_detach m (m_tracked r2) w2 r2 I2 H2m eq_refl P2) as [I3 [r3 [H3 [T3 [Pe3 Po3]]]]].
+  destruct (fold_detach_st m h s (m_tracked r2) w2 H2h) as [F1 F2].
+  set (w3 := fold_left (fun w a => detach m a w) (m_tracked r2) w2) in *.
+  assert (Hin : In s (m_tracked r2)) by (apply (iv_tracked _ _ I2 _ _ s H2m); eauto).
+  replace (memb s (m_tracked r2)) with true in F1 by (symmetry; apply memb_In'; exact Hin).
+  rewrite H2s in F1. simpl in F1.
+  cbn [fst snd]. rewrite H3, Pe3. cbn [fold_left]. split; auto.
+  split; [|split].
+  - unfold get_h, with_meshes. simpl. rewrite handles_upd_mesh. exact F2.
+  - unfold get_st, with_meshes. simpl. rewrite heap_upd_mesh. exact F1.
+  - rewrite get_mesh_kill, Nat.eqb_refl. reflexivity.
+Qed.
+
+(* ====================================================================== the unchecked set_name (D10) *)
+
+Definition d10_duplicate : list rop :=
+  [NewMesh; Request 0 KV TInt 2 1%Z; Request 0 KV TInt 3 2%Z; SetName 1 2].
+Definition d10_anonymous : list rop :=
+  [NewMesh; Request 0 KV TInt 2 1%Z; SetName 0 0].
+
+Lemma d10_duplicate_witness :
+  let w := rrun d10_duplicate in
+  exists st1 st2, get_st w 1 = Some st1 /\ get_st w 2 = Some st2 /\
+    s_owner st1 = Some 0 /\ s_owner st2 = Some 0 /\ s_shared st1 = true /\ s_shared st2 = true /\ key_eq st1 st2.
+Proof. vm_compute. do 2 eexists. repeat split. Qed.
+
+Lemma d10_anonymous_witness :
+  let w := rrun d10_anonymous in
+  exists st, get_st w 1 = Some st /\ s_shared st = true /\ s_name st = 0.
+Proof. vm_compute. eexists. repeat split. Qed.
+
+(* the only step of these histories outside op_ok is the SetName *)
+Lemma d10_duplicate_prefix_ok : all_ok empty_world [NewMesh; Request 0 KV TInt 2 1%Z; Request 0 KV TInt 3 2%Z].
+Proof. simpl. tauto. Qed.
